@@ -30,7 +30,7 @@
 (* defaults are the code's choices, the alternatives must be refuted by    *)
 (* TLC and yield witness schedules that are replayed on the real code.     *)
 (***************************************************************************)
-EXTENDS MapSem
+EXTENDS MapSem, SequencesExt
 
 CONSTANTS
   Variant,        \* "Map" | "MapOf"
@@ -57,6 +57,7 @@ CONSTANTS
   FnBeforeRetry,          \* FALSE (code): the user function is called only on a path that commits
   BroadcastOnResizeEnd,   \* TRUE (code)
   UnlockOnNewerTable,     \* TRUE (code): the retry path after `newer table exists` unlocks first
+  RangeSnapshotsTable,    \* TRUE (code): a traversal walks the one table generation it loaded at the start
   ZeroOnAbsentDelete      \* TRUE (fixed code): Compute(delete) on an absent key returns the zero value on every path
 
 None == "none"
@@ -105,13 +106,37 @@ Matches(r, o) ==
   CASE o.call.op \in {"Load", "LoadOrStore", "LoadAndStore", "LoadAndDelete", "LoadOrCompute", "Compute"} -> r.rv = o.res.rv /\ r.ok = o.res.ok /\ r.n = o.res.n
     [] OTHER -> TRUE
 
-RECURSIVE LinSearch(_, _, _, _)
-LinSearch(M, pending, finalM, finalSize) ==
+\* Range is not atomic: it enters the search as two pseudo calls pinned to its invocation and response instants
+\* ("rbegin" / "rend"); between them the candidate sets of MapLin are accumulated: cand[k] = values (or AbsentMark)
+\* key k has had since the traversal began. At "rend": at most one visit per key, every visited value is a
+\* candidate, every key that stayed present throughout was visited.
+AbsentMark == "<absent>"
+CandOf(cand, k) == IF k \in DOMAIN cand THEN cand[k] ELSE {AbsentMark}
+CandPut(cand, k, x) == [y \in (DOMAIN cand) \cup {k} |-> IF y = k THEN CandOf(cand, k) \cup {x} ELSE cand[y]]
+NewMapping(Mn, k) == IF k \in DOMAIN Mn.m THEN Mn.m[k] ELSE AbsentMark
+RECURSIVE CandPutAll(_, _, _)
+CandPutAll(cand, ks, Mn) ==
+  IF ks = {} THEN cand ELSE LET k == CHOOSE x \in ks : TRUE IN CandPutAll(CandPut(cand, k, NewMapping(Mn, k)), ks \ {k}, Mn)
+TouchedKeys(c, Mo) == IF c.op = "Clear" THEN DOMAIN Mo.m ELSE IF c.k = "" THEN {} ELSE {c.k}
+InformAll(act, c, Mo, Mn) == [r \in DOMAIN act |-> CandPutAll(act[r], TouchedKeys(c, Mo), Mn)]
+VisitsOK(vis, cand) ==
+  /\ Cardinality({vis[i].k : i \in DOMAIN vis}) = Len(vis)
+  /\ \A i \in DOMAIN vis : vis[i].v \in (CandOf(cand, vis[i].k) \ {AbsentMark})
+  /\ \A k \in DOMAIN cand : AbsentMark \notin cand[k] => \E i \in DOMAIN vis : vis[i].k = k
+
+RECURSIVE LinSearch(_, _, _, _, _)
+LinSearch(M, pending, act, finalM, finalSize) ==
   IF pending = {} THEN M.m = finalM /\ finalSize = Cardinality(DOMAIN M.m)
   ELSE \E o \in pending :
-         /\ \A p \in pending : p = o \/ p.ri > o.ci
-         /\ Matches(ResOf(M, o.call), o)
-         /\ LinSearch(MNextCall(M, o.call), pending \ {o}, finalM, finalSize)
+         /\ \A p \in pending : p = o \/ p.ri > o.ci \/ (p.ri = o.ci /\ p.ci = o.ci)
+         /\ CASE o.call.op = "rbegin" ->
+                   LinSearch(M, pending \ {o}, [r \in (DOMAIN act) \cup {o.t} |-> IF r = o.t THEN [k \in DOMAIN M.m |-> {M.m[k]}] ELSE act[r]], finalM, finalSize)
+              [] o.call.op = "rend" ->
+                   /\ VisitsOK(o.vis, act[o.t])
+                   /\ LinSearch(M, pending \ {o}, [r \in (DOMAIN act) \ {o.t} |-> act[r]], finalM, finalSize)
+              [] OTHER ->
+                   /\ Matches(ResOf(M, o.call), o)
+                   /\ LinSearch(MNextCall(M, o.call), pending \ {o}, InformAll(act, o.call, M, MNextCall(M, o.call)), finalM, finalSize)
 
 (* --algorithm clht
 variables
@@ -126,6 +151,7 @@ variables
   fncalls = [t \in Threads |-> 0],
   lres = [t \in Threads |-> [rv |-> NilV, ok |-> FALSE]],
   cres = [t \in Threads |-> [rv |-> NilV, ok |-> FALSE]],
+  rvis = [t \in Threads |-> <<>>],   \* pairs handed to the Range visitor of the call in flight
   pcnt = [t \in Threads |-> 0];   \* program counter into Menu[t]
 
 define
@@ -341,6 +367,25 @@ DCu: tabs[d_t].lock[d_b] := None;
 DCr: return;
 end procedure;
 
+\* ---- Range (map.go:642, mapof.go:557): table snapshot; per root bucket lock, copy the chain, unlock, then visit ----
+procedure rangeAll()
+variables r_t = 0, r_b = 0, r_ents = <<>>, r_i = 1;
+begin
+R1: r_t := cur; r_b := 0;                                        \* LoadPointer(&m.table)
+R2: while r_b < tabs[r_t].nb do
+R2l:  await tabs[r_t].lock[r_b] = None; tabs[r_t].lock[r_b] := self;          \* lockBucket / rootb.mu.Lock
+R2u:  r_ents := SetToSeq(LiveEntries(tabs[r_t].cells[r_b])); r_i := 1;       \* copy entries (plain), unlock
+      tabs[r_t].lock[r_b] := None;
+R3:   while r_i <= Len(r_ents) do                                             \* f(k, v) - user function, no lock held
+        rvis[self] := Append(rvis[self], r_ents[r_i]);
+        r_i := r_i + 1;
+      end while;
+      r_b := r_b + 1;
+      if ~RangeSnapshotsTable then r_t := cur; end if;
+    end while;
+    return;
+end procedure;
+
 \* ---- Clear / Size ----
 procedure clearMap()
 variables c_t = 0;
@@ -358,20 +403,26 @@ Loop: while pcnt[self] < Len(Menu[self]) do
         clk := clk + 1; ci := clk; fncalls[self] := 0;
 Disp:   if Op(self).op = "Load" then call load(Op(self).k);
         elsif Op(self).op = "Clear" then call clearMap();
+        elsif Op(self).op = "Range" then rvis[self] := <<>>; call rangeAll();
         elsif Op(self).op = "Size" then cres[self] := [rv |-> NilV, ok |-> FALSE];
         else call doCompute(Op(self).op, Op(self).k, Op(self).v, Op(self).fn); end if;
 Fin:    clk := clk + 1;
-        done := done \cup {[t |-> self, call |-> Op(self), ci |-> ci, ri |-> clk,
+        if Op(self).op = "Range" then
+          done := done \cup {[t |-> self, call |-> [Op(self) EXCEPT !.op = "rbegin"], ci |-> ci, ri |-> ci, vis |-> <<>>, res |-> [rv |-> NilV, ok |-> FALSE, n |-> 0]],
+                             [t |-> self, call |-> [Op(self) EXCEPT !.op = "rend"], ci |-> clk, ri |-> clk, vis |-> rvis[self], res |-> [rv |-> NilV, ok |-> FALSE, n |-> 0]]};
+        else
+        done := done \cup {[t |-> self, call |-> Op(self), ci |-> ci, ri |-> clk, vis |-> <<>>,
                             res |-> [rv |-> (IF Op(self).op = "Load" THEN lres[self].rv ELSE cres[self].rv),
                                      ok |-> (IF Op(self).op = "Load" THEN lres[self].ok ELSE cres[self].ok),
                                      n |-> (IF Op(self).op \in {"Compute", "LoadOrCompute"} THEN fncalls[self] ELSE 0)]]};
+        end if;
       end while;
 end process;
 end algorithm; *)
 \* BEGIN TRANSLATION
 CONSTANT defaultInitValue
 VARIABLES pc, tabs, cur, nextGen, resizing, rmu, waiters, clk, done, fncalls, 
-          lres, cres, pcnt, stack
+          lres, cres, rvis, pcnt, stack
 
 (* define statement *)
 Op(t) == Menu[t][pcnt[t]]
@@ -381,13 +432,13 @@ NoDup(tab) == \A b \in 0..(tab.nb - 1), k \in Keys : Cardinality(FindKey(tab.cel
 
 VARIABLES hint, known, rz_t, rz_new, rz_b, rz_nb, rz_cnt, lk, l_t, l_b, l_c, 
           l_cand, l_s, l_v, l_k, kind, dk, dv, dfn, d_t, d_b, d_pos, d_old, 
-          d_r, d_ins, d_fnres, d_fndone, c_t, ci
+          d_r, d_ins, d_fnres, d_fndone, r_t, r_b, r_ents, r_i, c_t, ci
 
 vars == << pc, tabs, cur, nextGen, resizing, rmu, waiters, clk, done, fncalls, 
-           lres, cres, pcnt, stack, hint, known, rz_t, rz_new, rz_b, rz_nb, 
-           rz_cnt, lk, l_t, l_b, l_c, l_cand, l_s, l_v, l_k, kind, dk, dv, 
-           dfn, d_t, d_b, d_pos, d_old, d_r, d_ins, d_fnres, d_fndone, c_t, 
-           ci >>
+           lres, cres, rvis, pcnt, stack, hint, known, rz_t, rz_new, rz_b, 
+           rz_nb, rz_cnt, lk, l_t, l_b, l_c, l_cand, l_s, l_v, l_k, kind, dk, 
+           dv, dfn, d_t, d_b, d_pos, d_old, d_r, d_ins, d_fnres, d_fndone, 
+           r_t, r_b, r_ents, r_i, c_t, ci >>
 
 ProcSet == (Threads)
 
@@ -403,6 +454,7 @@ Init == (* Global variables *)
         /\ fncalls = [t \in Threads |-> 0]
         /\ lres = [t \in Threads |-> [rv |-> NilV, ok |-> FALSE]]
         /\ cres = [t \in Threads |-> [rv |-> NilV, ok |-> FALSE]]
+        /\ rvis = [t \in Threads |-> <<>>]
         /\ pcnt = [t \in Threads |-> 0]
         (* Procedure resize *)
         /\ hint = [ self \in ProcSet |-> defaultInitValue]
@@ -434,6 +486,11 @@ Init == (* Global variables *)
         /\ d_ins = [ self \in ProcSet |-> FALSE]
         /\ d_fnres = [ self \in ProcSet |-> <<NilV, FALSE>>]
         /\ d_fndone = [ self \in ProcSet |-> FALSE]
+        (* Procedure rangeAll *)
+        /\ r_t = [ self \in ProcSet |-> 0]
+        /\ r_b = [ self \in ProcSet |-> 0]
+        /\ r_ents = [ self \in ProcSet |-> <<>>]
+        /\ r_i = [ self \in ProcSet |-> 1]
         (* Procedure clearMap *)
         /\ c_t = [ self \in ProcSet |-> 0]
         (* Process thr *)
@@ -446,64 +503,65 @@ W1(self) == /\ pc[self] = "W1"
             /\ rmu' = self
             /\ pc' = [pc EXCEPT ![self] = "W2"]
             /\ UNCHANGED << tabs, cur, nextGen, resizing, waiters, clk, done, 
-                            fncalls, lres, cres, pcnt, stack, hint, known, 
-                            rz_t, rz_new, rz_b, rz_nb, rz_cnt, lk, l_t, l_b, 
-                            l_c, l_cand, l_s, l_v, l_k, kind, dk, dv, dfn, d_t, 
-                            d_b, d_pos, d_old, d_r, d_ins, d_fnres, d_fndone, 
-                            c_t, ci >>
+                            fncalls, lres, cres, rvis, pcnt, stack, hint, 
+                            known, rz_t, rz_new, rz_b, rz_nb, rz_cnt, lk, l_t, 
+                            l_b, l_c, l_cand, l_s, l_v, l_k, kind, dk, dv, dfn, 
+                            d_t, d_b, d_pos, d_old, d_r, d_ins, d_fnres, 
+                            d_fndone, r_t, r_b, r_ents, r_i, c_t, ci >>
 
 W2(self) == /\ pc[self] = "W2"
             /\ IF resizing
                   THEN /\ pc' = [pc EXCEPT ![self] = "W3"]
                   ELSE /\ pc' = [pc EXCEPT ![self] = "W4"]
             /\ UNCHANGED << tabs, cur, nextGen, resizing, rmu, waiters, clk, 
-                            done, fncalls, lres, cres, pcnt, stack, hint, 
+                            done, fncalls, lres, cres, rvis, pcnt, stack, hint, 
                             known, rz_t, rz_new, rz_b, rz_nb, rz_cnt, lk, l_t, 
                             l_b, l_c, l_cand, l_s, l_v, l_k, kind, dk, dv, dfn, 
                             d_t, d_b, d_pos, d_old, d_r, d_ins, d_fnres, 
-                            d_fndone, c_t, ci >>
+                            d_fndone, r_t, r_b, r_ents, r_i, c_t, ci >>
 
 W3(self) == /\ pc[self] = "W3"
             /\ rmu' = None
             /\ waiters' = (waiters \cup {self})
             /\ pc' = [pc EXCEPT ![self] = "W3b"]
             /\ UNCHANGED << tabs, cur, nextGen, resizing, clk, done, fncalls, 
-                            lres, cres, pcnt, stack, hint, known, rz_t, rz_new, 
-                            rz_b, rz_nb, rz_cnt, lk, l_t, l_b, l_c, l_cand, 
-                            l_s, l_v, l_k, kind, dk, dv, dfn, d_t, d_b, d_pos, 
-                            d_old, d_r, d_ins, d_fnres, d_fndone, c_t, ci >>
+                            lres, cres, rvis, pcnt, stack, hint, known, rz_t, 
+                            rz_new, rz_b, rz_nb, rz_cnt, lk, l_t, l_b, l_c, 
+                            l_cand, l_s, l_v, l_k, kind, dk, dv, dfn, d_t, d_b, 
+                            d_pos, d_old, d_r, d_ins, d_fnres, d_fndone, r_t, 
+                            r_b, r_ents, r_i, c_t, ci >>
 
 W3b(self) == /\ pc[self] = "W3b"
              /\ self \notin waiters
              /\ pc' = [pc EXCEPT ![self] = "W3c"]
              /\ UNCHANGED << tabs, cur, nextGen, resizing, rmu, waiters, clk, 
-                             done, fncalls, lres, cres, pcnt, stack, hint, 
-                             known, rz_t, rz_new, rz_b, rz_nb, rz_cnt, lk, l_t, 
-                             l_b, l_c, l_cand, l_s, l_v, l_k, kind, dk, dv, 
-                             dfn, d_t, d_b, d_pos, d_old, d_r, d_ins, d_fnres, 
-                             d_fndone, c_t, ci >>
+                             done, fncalls, lres, cres, rvis, pcnt, stack, 
+                             hint, known, rz_t, rz_new, rz_b, rz_nb, rz_cnt, 
+                             lk, l_t, l_b, l_c, l_cand, l_s, l_v, l_k, kind, 
+                             dk, dv, dfn, d_t, d_b, d_pos, d_old, d_r, d_ins, 
+                             d_fnres, d_fndone, r_t, r_b, r_ents, r_i, c_t, ci >>
 
 W3c(self) == /\ pc[self] = "W3c"
              /\ rmu = None
              /\ rmu' = self
              /\ pc' = [pc EXCEPT ![self] = "W2"]
              /\ UNCHANGED << tabs, cur, nextGen, resizing, waiters, clk, done, 
-                             fncalls, lres, cres, pcnt, stack, hint, known, 
-                             rz_t, rz_new, rz_b, rz_nb, rz_cnt, lk, l_t, l_b, 
-                             l_c, l_cand, l_s, l_v, l_k, kind, dk, dv, dfn, 
-                             d_t, d_b, d_pos, d_old, d_r, d_ins, d_fnres, 
-                             d_fndone, c_t, ci >>
+                             fncalls, lres, cres, rvis, pcnt, stack, hint, 
+                             known, rz_t, rz_new, rz_b, rz_nb, rz_cnt, lk, l_t, 
+                             l_b, l_c, l_cand, l_s, l_v, l_k, kind, dk, dv, 
+                             dfn, d_t, d_b, d_pos, d_old, d_r, d_ins, d_fnres, 
+                             d_fndone, r_t, r_b, r_ents, r_i, c_t, ci >>
 
 W4(self) == /\ pc[self] = "W4"
             /\ rmu' = None
             /\ pc' = [pc EXCEPT ![self] = Head(stack[self]).pc]
             /\ stack' = [stack EXCEPT ![self] = Tail(stack[self])]
             /\ UNCHANGED << tabs, cur, nextGen, resizing, waiters, clk, done, 
-                            fncalls, lres, cres, pcnt, hint, known, rz_t, 
+                            fncalls, lres, cres, rvis, pcnt, hint, known, rz_t, 
                             rz_new, rz_b, rz_nb, rz_cnt, lk, l_t, l_b, l_c, 
                             l_cand, l_s, l_v, l_k, kind, dk, dv, dfn, d_t, d_b, 
-                            d_pos, d_old, d_r, d_ins, d_fnres, d_fndone, c_t, 
-                            ci >>
+                            d_pos, d_old, d_r, d_ins, d_fnres, d_fndone, r_t, 
+                            r_b, r_ents, r_i, c_t, ci >>
 
 waitForResize(self) == W1(self) \/ W2(self) \/ W3(self) \/ W3b(self)
                           \/ W3c(self) \/ W4(self)
@@ -523,10 +581,10 @@ RZ0(self) == /\ pc[self] = "RZ0"
                         /\ UNCHANGED << stack, hint, known, rz_t, rz_new, rz_b, 
                                         rz_nb, rz_cnt >>
              /\ UNCHANGED << tabs, cur, nextGen, resizing, rmu, waiters, clk, 
-                             done, fncalls, lres, cres, pcnt, lk, l_t, l_b, 
-                             l_c, l_cand, l_s, l_v, l_k, kind, dk, dv, dfn, 
-                             d_t, d_b, d_pos, d_old, d_r, d_ins, d_fnres, 
-                             d_fndone, c_t, ci >>
+                             done, fncalls, lres, cres, rvis, pcnt, lk, l_t, 
+                             l_b, l_c, l_cand, l_s, l_v, l_k, kind, dk, dv, 
+                             dfn, d_t, d_b, d_pos, d_old, d_r, d_ins, d_fnres, 
+                             d_fndone, r_t, r_b, r_ents, r_i, c_t, ci >>
 
 RZ1(self) == /\ pc[self] = "RZ1"
              /\ IF resizing
@@ -539,11 +597,11 @@ RZ1(self) == /\ pc[self] = "RZ1"
                         /\ pc' = [pc EXCEPT ![self] = "RZ2"]
                         /\ stack' = stack
              /\ UNCHANGED << tabs, cur, nextGen, rmu, waiters, clk, done, 
-                             fncalls, lres, cres, pcnt, hint, known, rz_t, 
-                             rz_new, rz_b, rz_nb, rz_cnt, lk, l_t, l_b, l_c, 
-                             l_cand, l_s, l_v, l_k, kind, dk, dv, dfn, d_t, 
-                             d_b, d_pos, d_old, d_r, d_ins, d_fnres, d_fndone, 
-                             c_t, ci >>
+                             fncalls, lres, cres, rvis, pcnt, hint, known, 
+                             rz_t, rz_new, rz_b, rz_nb, rz_cnt, lk, l_t, l_b, 
+                             l_c, l_cand, l_s, l_v, l_k, kind, dk, dv, dfn, 
+                             d_t, d_b, d_pos, d_old, d_r, d_ins, d_fnres, 
+                             d_fndone, r_t, r_b, r_ents, r_i, c_t, ci >>
 
 RZ1r(self) == /\ pc[self] = "RZ1r"
               /\ IF hint[self] = "clear" /\ ClearLoserRetries
@@ -560,10 +618,10 @@ RZ1r(self) == /\ pc[self] = "RZ1r"
                          /\ known' = [known EXCEPT ![self] = Head(stack[self]).known]
                          /\ stack' = [stack EXCEPT ![self] = Tail(stack[self])]
               /\ UNCHANGED << tabs, cur, nextGen, resizing, rmu, waiters, clk, 
-                              done, fncalls, lres, cres, pcnt, lk, l_t, l_b, 
-                              l_c, l_cand, l_s, l_v, l_k, kind, dk, dv, dfn, 
-                              d_t, d_b, d_pos, d_old, d_r, d_ins, d_fnres, 
-                              d_fndone, c_t, ci >>
+                              done, fncalls, lres, cres, rvis, pcnt, lk, l_t, 
+                              l_b, l_c, l_cand, l_s, l_v, l_k, kind, dk, dv, 
+                              dfn, d_t, d_b, d_pos, d_old, d_r, d_ins, d_fnres, 
+                              d_fndone, r_t, r_b, r_ents, r_i, c_t, ci >>
 
 RZ2(self) == /\ pc[self] = "RZ2"
              /\ rz_t' = [rz_t EXCEPT ![self] = cur]
@@ -578,10 +636,10 @@ RZ2(self) == /\ pc[self] = "RZ2"
                         /\ rz_cnt' = [rz_cnt EXCEPT ![self] = 0]
                         /\ pc' = [pc EXCEPT ![self] = "RZc"]
              /\ UNCHANGED << cur, resizing, rmu, waiters, clk, done, fncalls, 
-                             lres, cres, pcnt, stack, hint, known, lk, l_t, 
-                             l_b, l_c, l_cand, l_s, l_v, l_k, kind, dk, dv, 
-                             dfn, d_t, d_b, d_pos, d_old, d_r, d_ins, d_fnres, 
-                             d_fndone, c_t, ci >>
+                             lres, cres, rvis, pcnt, stack, hint, known, lk, 
+                             l_t, l_b, l_c, l_cand, l_s, l_v, l_k, kind, dk, 
+                             dv, dfn, d_t, d_b, d_pos, d_old, d_r, d_ins, 
+                             d_fnres, d_fndone, r_t, r_b, r_ents, r_i, c_t, ci >>
 
 RZc(self) == /\ pc[self] = "RZc"
              /\ IF hint[self] # "clear" /\ rz_b[self] < tabs[rz_t[self]].nb
@@ -590,11 +648,11 @@ RZc(self) == /\ pc[self] = "RZc"
                    ELSE /\ tabs' = [tabs EXCEPT ![rz_new[self]].size = IF CopyRecounts THEN rz_cnt[self] ELSE tabs[rz_t[self]].size]
                         /\ pc' = [pc EXCEPT ![self] = "RZ4"]
              /\ UNCHANGED << cur, nextGen, resizing, rmu, waiters, clk, done, 
-                             fncalls, lres, cres, pcnt, stack, hint, known, 
-                             rz_t, rz_new, rz_b, rz_nb, rz_cnt, lk, l_t, l_b, 
-                             l_c, l_cand, l_s, l_v, l_k, kind, dk, dv, dfn, 
-                             d_t, d_b, d_pos, d_old, d_r, d_ins, d_fnres, 
-                             d_fndone, c_t, ci >>
+                             fncalls, lres, cres, rvis, pcnt, stack, hint, 
+                             known, rz_t, rz_new, rz_b, rz_nb, rz_cnt, lk, l_t, 
+                             l_b, l_c, l_cand, l_s, l_v, l_k, kind, dk, dv, 
+                             dfn, d_t, d_b, d_pos, d_old, d_r, d_ins, d_fnres, 
+                             d_fndone, r_t, r_b, r_ents, r_i, c_t, ci >>
 
 RZl(self) == /\ pc[self] = "RZl"
              /\ IF CopyLocksBuckets
@@ -604,11 +662,11 @@ RZl(self) == /\ pc[self] = "RZl"
                         /\ tabs' = tabs
              /\ pc' = [pc EXCEPT ![self] = "RZu"]
              /\ UNCHANGED << cur, nextGen, resizing, rmu, waiters, clk, done, 
-                             fncalls, lres, cres, pcnt, stack, hint, known, 
-                             rz_t, rz_new, rz_b, rz_nb, rz_cnt, lk, l_t, l_b, 
-                             l_c, l_cand, l_s, l_v, l_k, kind, dk, dv, dfn, 
-                             d_t, d_b, d_pos, d_old, d_r, d_ins, d_fnres, 
-                             d_fndone, c_t, ci >>
+                             fncalls, lres, cres, rvis, pcnt, stack, hint, 
+                             known, rz_t, rz_new, rz_b, rz_nb, rz_cnt, lk, l_t, 
+                             l_b, l_c, l_cand, l_s, l_v, l_k, kind, dk, dv, 
+                             dfn, d_t, d_b, d_pos, d_old, d_r, d_ins, d_fnres, 
+                             d_fndone, r_t, r_b, r_ents, r_i, c_t, ci >>
 
 RZu(self) == /\ pc[self] = "RZu"
              /\ tabs' = [tabs EXCEPT ![rz_new[self]] = PutAll(tabs[rz_new[self]], LiveEntries(tabs[rz_t[self]].cells[rz_b[self]])),
@@ -617,10 +675,11 @@ RZu(self) == /\ pc[self] = "RZu"
              /\ rz_b' = [rz_b EXCEPT ![self] = rz_b[self] + 1]
              /\ pc' = [pc EXCEPT ![self] = "RZc"]
              /\ UNCHANGED << cur, nextGen, resizing, rmu, waiters, clk, done, 
-                             fncalls, lres, cres, pcnt, stack, hint, known, 
-                             rz_t, rz_new, rz_nb, lk, l_t, l_b, l_c, l_cand, 
-                             l_s, l_v, l_k, kind, dk, dv, dfn, d_t, d_b, d_pos, 
-                             d_old, d_r, d_ins, d_fnres, d_fndone, c_t, ci >>
+                             fncalls, lres, cres, rvis, pcnt, stack, hint, 
+                             known, rz_t, rz_new, rz_nb, lk, l_t, l_b, l_c, 
+                             l_cand, l_s, l_v, l_k, kind, dk, dv, dfn, d_t, 
+                             d_b, d_pos, d_old, d_r, d_ins, d_fnres, d_fndone, 
+                             r_t, r_b, r_ents, r_i, c_t, ci >>
 
 RZ4(self) == /\ pc[self] = "RZ4"
              /\ IF PublishBeforeFlagClear
@@ -629,32 +688,32 @@ RZ4(self) == /\ pc[self] = "RZ4"
                         /\ cur' = cur
              /\ pc' = [pc EXCEPT ![self] = "RZ5"]
              /\ UNCHANGED << tabs, nextGen, resizing, rmu, waiters, clk, done, 
-                             fncalls, lres, cres, pcnt, stack, hint, known, 
-                             rz_t, rz_new, rz_b, rz_nb, rz_cnt, lk, l_t, l_b, 
-                             l_c, l_cand, l_s, l_v, l_k, kind, dk, dv, dfn, 
-                             d_t, d_b, d_pos, d_old, d_r, d_ins, d_fnres, 
-                             d_fndone, c_t, ci >>
+                             fncalls, lres, cres, rvis, pcnt, stack, hint, 
+                             known, rz_t, rz_new, rz_b, rz_nb, rz_cnt, lk, l_t, 
+                             l_b, l_c, l_cand, l_s, l_v, l_k, kind, dk, dv, 
+                             dfn, d_t, d_b, d_pos, d_old, d_r, d_ins, d_fnres, 
+                             d_fndone, r_t, r_b, r_ents, r_i, c_t, ci >>
 
 RZ5(self) == /\ pc[self] = "RZ5"
              /\ rmu = None
              /\ rmu' = self
              /\ pc' = [pc EXCEPT ![self] = "RZ6"]
              /\ UNCHANGED << tabs, cur, nextGen, resizing, waiters, clk, done, 
-                             fncalls, lres, cres, pcnt, stack, hint, known, 
-                             rz_t, rz_new, rz_b, rz_nb, rz_cnt, lk, l_t, l_b, 
-                             l_c, l_cand, l_s, l_v, l_k, kind, dk, dv, dfn, 
-                             d_t, d_b, d_pos, d_old, d_r, d_ins, d_fnres, 
-                             d_fndone, c_t, ci >>
+                             fncalls, lres, cres, rvis, pcnt, stack, hint, 
+                             known, rz_t, rz_new, rz_b, rz_nb, rz_cnt, lk, l_t, 
+                             l_b, l_c, l_cand, l_s, l_v, l_k, kind, dk, dv, 
+                             dfn, d_t, d_b, d_pos, d_old, d_r, d_ins, d_fnres, 
+                             d_fndone, r_t, r_b, r_ents, r_i, c_t, ci >>
 
 RZ6(self) == /\ pc[self] = "RZ6"
              /\ resizing' = FALSE
              /\ pc' = [pc EXCEPT ![self] = "RZ7"]
              /\ UNCHANGED << tabs, cur, nextGen, rmu, waiters, clk, done, 
-                             fncalls, lres, cres, pcnt, stack, hint, known, 
-                             rz_t, rz_new, rz_b, rz_nb, rz_cnt, lk, l_t, l_b, 
-                             l_c, l_cand, l_s, l_v, l_k, kind, dk, dv, dfn, 
-                             d_t, d_b, d_pos, d_old, d_r, d_ins, d_fnres, 
-                             d_fndone, c_t, ci >>
+                             fncalls, lres, cres, rvis, pcnt, stack, hint, 
+                             known, rz_t, rz_new, rz_b, rz_nb, rz_cnt, lk, l_t, 
+                             l_b, l_c, l_cand, l_s, l_v, l_k, kind, dk, dv, 
+                             dfn, d_t, d_b, d_pos, d_old, d_r, d_ins, d_fnres, 
+                             d_fndone, r_t, r_b, r_ents, r_i, c_t, ci >>
 
 RZ7(self) == /\ pc[self] = "RZ7"
              /\ IF BroadcastOnResizeEnd
@@ -663,11 +722,11 @@ RZ7(self) == /\ pc[self] = "RZ7"
                         /\ UNCHANGED waiters
              /\ pc' = [pc EXCEPT ![self] = "RZ8"]
              /\ UNCHANGED << tabs, cur, nextGen, resizing, rmu, clk, done, 
-                             fncalls, lres, cres, pcnt, stack, hint, known, 
-                             rz_t, rz_new, rz_b, rz_nb, rz_cnt, lk, l_t, l_b, 
-                             l_c, l_cand, l_s, l_v, l_k, kind, dk, dv, dfn, 
-                             d_t, d_b, d_pos, d_old, d_r, d_ins, d_fnres, 
-                             d_fndone, c_t, ci >>
+                             fncalls, lres, cres, rvis, pcnt, stack, hint, 
+                             known, rz_t, rz_new, rz_b, rz_nb, rz_cnt, lk, l_t, 
+                             l_b, l_c, l_cand, l_s, l_v, l_k, kind, dk, dv, 
+                             dfn, d_t, d_b, d_pos, d_old, d_r, d_ins, d_fnres, 
+                             d_fndone, r_t, r_b, r_ents, r_i, c_t, ci >>
 
 RZ8(self) == /\ pc[self] = "RZ8"
              /\ rmu' = None
@@ -675,21 +734,21 @@ RZ8(self) == /\ pc[self] = "RZ8"
                    THEN /\ pc' = [pc EXCEPT ![self] = "RZ9"]
                    ELSE /\ pc' = [pc EXCEPT ![self] = "RZr"]
              /\ UNCHANGED << tabs, cur, nextGen, resizing, waiters, clk, done, 
-                             fncalls, lres, cres, pcnt, stack, hint, known, 
-                             rz_t, rz_new, rz_b, rz_nb, rz_cnt, lk, l_t, l_b, 
-                             l_c, l_cand, l_s, l_v, l_k, kind, dk, dv, dfn, 
-                             d_t, d_b, d_pos, d_old, d_r, d_ins, d_fnres, 
-                             d_fndone, c_t, ci >>
+                             fncalls, lres, cres, rvis, pcnt, stack, hint, 
+                             known, rz_t, rz_new, rz_b, rz_nb, rz_cnt, lk, l_t, 
+                             l_b, l_c, l_cand, l_s, l_v, l_k, kind, dk, dv, 
+                             dfn, d_t, d_b, d_pos, d_old, d_r, d_ins, d_fnres, 
+                             d_fndone, r_t, r_b, r_ents, r_i, c_t, ci >>
 
 RZ9(self) == /\ pc[self] = "RZ9"
              /\ cur' = rz_new[self]
              /\ pc' = [pc EXCEPT ![self] = "RZr"]
              /\ UNCHANGED << tabs, nextGen, resizing, rmu, waiters, clk, done, 
-                             fncalls, lres, cres, pcnt, stack, hint, known, 
-                             rz_t, rz_new, rz_b, rz_nb, rz_cnt, lk, l_t, l_b, 
-                             l_c, l_cand, l_s, l_v, l_k, kind, dk, dv, dfn, 
-                             d_t, d_b, d_pos, d_old, d_r, d_ins, d_fnres, 
-                             d_fndone, c_t, ci >>
+                             fncalls, lres, cres, rvis, pcnt, stack, hint, 
+                             known, rz_t, rz_new, rz_b, rz_nb, rz_cnt, lk, l_t, 
+                             l_b, l_c, l_cand, l_s, l_v, l_k, kind, dk, dv, 
+                             dfn, d_t, d_b, d_pos, d_old, d_r, d_ins, d_fnres, 
+                             d_fndone, r_t, r_b, r_ents, r_i, c_t, ci >>
 
 RZr(self) == /\ pc[self] = "RZr"
              /\ pc' = [pc EXCEPT ![self] = Head(stack[self]).pc]
@@ -702,41 +761,43 @@ RZr(self) == /\ pc[self] = "RZr"
              /\ known' = [known EXCEPT ![self] = Head(stack[self]).known]
              /\ stack' = [stack EXCEPT ![self] = Tail(stack[self])]
              /\ UNCHANGED << tabs, cur, nextGen, resizing, rmu, waiters, clk, 
-                             done, fncalls, lres, cres, pcnt, lk, l_t, l_b, 
-                             l_c, l_cand, l_s, l_v, l_k, kind, dk, dv, dfn, 
-                             d_t, d_b, d_pos, d_old, d_r, d_ins, d_fnres, 
-                             d_fndone, c_t, ci >>
+                             done, fncalls, lres, cres, rvis, pcnt, lk, l_t, 
+                             l_b, l_c, l_cand, l_s, l_v, l_k, kind, dk, dv, 
+                             dfn, d_t, d_b, d_pos, d_old, d_r, d_ins, d_fnres, 
+                             d_fndone, r_t, r_b, r_ents, r_i, c_t, ci >>
 
 RZa(self) == /\ pc[self] = "RZa"
              /\ rmu = None
              /\ rmu' = self
              /\ pc' = [pc EXCEPT ![self] = "RZa2"]
              /\ UNCHANGED << tabs, cur, nextGen, resizing, waiters, clk, done, 
-                             fncalls, lres, cres, pcnt, stack, hint, known, 
-                             rz_t, rz_new, rz_b, rz_nb, rz_cnt, lk, l_t, l_b, 
-                             l_c, l_cand, l_s, l_v, l_k, kind, dk, dv, dfn, 
-                             d_t, d_b, d_pos, d_old, d_r, d_ins, d_fnres, 
-                             d_fndone, c_t, ci >>
+                             fncalls, lres, cres, rvis, pcnt, stack, hint, 
+                             known, rz_t, rz_new, rz_b, rz_nb, rz_cnt, lk, l_t, 
+                             l_b, l_c, l_cand, l_s, l_v, l_k, kind, dk, dv, 
+                             dfn, d_t, d_b, d_pos, d_old, d_r, d_ins, d_fnres, 
+                             d_fndone, r_t, r_b, r_ents, r_i, c_t, ci >>
 
 RZa2(self) == /\ pc[self] = "RZa2"
               /\ resizing' = FALSE
               /\ pc' = [pc EXCEPT ![self] = "RZa3"]
               /\ UNCHANGED << tabs, cur, nextGen, rmu, waiters, clk, done, 
-                              fncalls, lres, cres, pcnt, stack, hint, known, 
-                              rz_t, rz_new, rz_b, rz_nb, rz_cnt, lk, l_t, l_b, 
-                              l_c, l_cand, l_s, l_v, l_k, kind, dk, dv, dfn, 
-                              d_t, d_b, d_pos, d_old, d_r, d_ins, d_fnres, 
-                              d_fndone, c_t, ci >>
+                              fncalls, lres, cres, rvis, pcnt, stack, hint, 
+                              known, rz_t, rz_new, rz_b, rz_nb, rz_cnt, lk, 
+                              l_t, l_b, l_c, l_cand, l_s, l_v, l_k, kind, dk, 
+                              dv, dfn, d_t, d_b, d_pos, d_old, d_r, d_ins, 
+                              d_fnres, d_fndone, r_t, r_b, r_ents, r_i, c_t, 
+                              ci >>
 
 RZa3(self) == /\ pc[self] = "RZa3"
               /\ waiters' = {}
               /\ pc' = [pc EXCEPT ![self] = "RZa4"]
               /\ UNCHANGED << tabs, cur, nextGen, resizing, rmu, clk, done, 
-                              fncalls, lres, cres, pcnt, stack, hint, known, 
-                              rz_t, rz_new, rz_b, rz_nb, rz_cnt, lk, l_t, l_b, 
-                              l_c, l_cand, l_s, l_v, l_k, kind, dk, dv, dfn, 
-                              d_t, d_b, d_pos, d_old, d_r, d_ins, d_fnres, 
-                              d_fndone, c_t, ci >>
+                              fncalls, lres, cres, rvis, pcnt, stack, hint, 
+                              known, rz_t, rz_new, rz_b, rz_nb, rz_cnt, lk, 
+                              l_t, l_b, l_c, l_cand, l_s, l_v, l_k, kind, dk, 
+                              dv, dfn, d_t, d_b, d_pos, d_old, d_r, d_ins, 
+                              d_fnres, d_fndone, r_t, r_b, r_ents, r_i, c_t, 
+                              ci >>
 
 RZa4(self) == /\ pc[self] = "RZa4"
               /\ rmu' = None
@@ -750,10 +811,10 @@ RZa4(self) == /\ pc[self] = "RZa4"
               /\ known' = [known EXCEPT ![self] = Head(stack[self]).known]
               /\ stack' = [stack EXCEPT ![self] = Tail(stack[self])]
               /\ UNCHANGED << tabs, cur, nextGen, resizing, waiters, clk, done, 
-                              fncalls, lres, cres, pcnt, lk, l_t, l_b, l_c, 
-                              l_cand, l_s, l_v, l_k, kind, dk, dv, dfn, d_t, 
-                              d_b, d_pos, d_old, d_r, d_ins, d_fnres, d_fndone, 
-                              c_t, ci >>
+                              fncalls, lres, cres, rvis, pcnt, lk, l_t, l_b, 
+                              l_c, l_cand, l_s, l_v, l_k, kind, dk, dv, dfn, 
+                              d_t, d_b, d_pos, d_old, d_r, d_ins, d_fnres, 
+                              d_fndone, r_t, r_b, r_ents, r_i, c_t, ci >>
 
 resize(self) == RZ0(self) \/ RZ1(self) \/ RZ1r(self) \/ RZ2(self)
                    \/ RZc(self) \/ RZl(self) \/ RZu(self) \/ RZ4(self)
@@ -767,21 +828,21 @@ L1(self) == /\ pc[self] = "L1"
             /\ l_c' = [l_c EXCEPT ![self] = 1]
             /\ pc' = [pc EXCEPT ![self] = "L2"]
             /\ UNCHANGED << tabs, cur, nextGen, resizing, rmu, waiters, clk, 
-                            done, fncalls, lres, cres, pcnt, stack, hint, 
+                            done, fncalls, lres, cres, rvis, pcnt, stack, hint, 
                             known, rz_t, rz_new, rz_b, rz_nb, rz_cnt, lk, 
                             l_cand, l_s, l_v, l_k, kind, dk, dv, dfn, d_t, d_b, 
-                            d_pos, d_old, d_r, d_ins, d_fnres, d_fndone, c_t, 
-                            ci >>
+                            d_pos, d_old, d_r, d_ins, d_fnres, d_fndone, r_t, 
+                            r_b, r_ents, r_i, c_t, ci >>
 
 L2(self) == /\ pc[self] = "L2"
             /\ l_cand' = [l_cand EXCEPT ![self] = {s \in 1..Slots : tabs[l_t[self]].cells[l_b[self]][l_c[self]][s].pres /\ tabs[l_t[self]].cells[l_b[self]][l_c[self]][s].hsh = HH[lk[self]]}]
             /\ pc' = [pc EXCEPT ![self] = "L3"]
             /\ UNCHANGED << tabs, cur, nextGen, resizing, rmu, waiters, clk, 
-                            done, fncalls, lres, cres, pcnt, stack, hint, 
+                            done, fncalls, lres, cres, rvis, pcnt, stack, hint, 
                             known, rz_t, rz_new, rz_b, rz_nb, rz_cnt, lk, l_t, 
                             l_b, l_c, l_s, l_v, l_k, kind, dk, dv, dfn, d_t, 
                             d_b, d_pos, d_old, d_r, d_ins, d_fnres, d_fndone, 
-                            c_t, ci >>
+                            r_t, r_b, r_ents, r_i, c_t, ci >>
 
 L3(self) == /\ pc[self] = "L3"
             /\ IF l_cand[self] # {}
@@ -792,21 +853,21 @@ L3(self) == /\ pc[self] = "L3"
                   ELSE /\ pc' = [pc EXCEPT ![self] = "L4"]
                        /\ l_s' = l_s
             /\ UNCHANGED << tabs, cur, nextGen, resizing, rmu, waiters, clk, 
-                            done, fncalls, lres, cres, pcnt, stack, hint, 
+                            done, fncalls, lres, cres, rvis, pcnt, stack, hint, 
                             known, rz_t, rz_new, rz_b, rz_nb, rz_cnt, lk, l_t, 
                             l_b, l_c, l_cand, l_v, l_k, kind, dk, dv, dfn, d_t, 
                             d_b, d_pos, d_old, d_r, d_ins, d_fnres, d_fndone, 
-                            c_t, ci >>
+                            r_t, r_b, r_ents, r_i, c_t, ci >>
 
 L3n(self) == /\ pc[self] = "L3n"
              /\ l_cand' = [l_cand EXCEPT ![self] = l_cand[self] \ {l_s[self]}]
              /\ pc' = [pc EXCEPT ![self] = "L3"]
              /\ UNCHANGED << tabs, cur, nextGen, resizing, rmu, waiters, clk, 
-                             done, fncalls, lres, cres, pcnt, stack, hint, 
-                             known, rz_t, rz_new, rz_b, rz_nb, rz_cnt, lk, l_t, 
-                             l_b, l_c, l_s, l_v, l_k, kind, dk, dv, dfn, d_t, 
-                             d_b, d_pos, d_old, d_r, d_ins, d_fnres, d_fndone, 
-                             c_t, ci >>
+                             done, fncalls, lres, cres, rvis, pcnt, stack, 
+                             hint, known, rz_t, rz_new, rz_b, rz_nb, rz_cnt, 
+                             lk, l_t, l_b, l_c, l_s, l_v, l_k, kind, dk, dv, 
+                             dfn, d_t, d_b, d_pos, d_old, d_r, d_ins, d_fnres, 
+                             d_fndone, r_t, r_b, r_ents, r_i, c_t, ci >>
 
 L3e(self) == /\ pc[self] = "L3e"
              /\ IF tabs[l_t[self]].cells[l_b[self]][l_c[self]][l_s[self]].key = lk[self]
@@ -825,30 +886,30 @@ L3e(self) == /\ pc[self] = "L3e"
                         /\ UNCHANGED << lres, stack, lk, l_t, l_b, l_c, l_cand, 
                                         l_s, l_v, l_k >>
              /\ UNCHANGED << tabs, cur, nextGen, resizing, rmu, waiters, clk, 
-                             done, fncalls, cres, pcnt, hint, known, rz_t, 
-                             rz_new, rz_b, rz_nb, rz_cnt, kind, dk, dv, dfn, 
-                             d_t, d_b, d_pos, d_old, d_r, d_ins, d_fnres, 
-                             d_fndone, c_t, ci >>
+                             done, fncalls, cres, rvis, pcnt, hint, known, 
+                             rz_t, rz_new, rz_b, rz_nb, rz_cnt, kind, dk, dv, 
+                             dfn, d_t, d_b, d_pos, d_old, d_r, d_ins, d_fnres, 
+                             d_fndone, r_t, r_b, r_ents, r_i, c_t, ci >>
 
 L3v(self) == /\ pc[self] = "L3v"
              /\ l_v' = [l_v EXCEPT ![self] = tabs[l_t[self]].cells[l_b[self]][l_c[self]][l_s[self]].val]
              /\ pc' = [pc EXCEPT ![self] = "L3k"]
              /\ UNCHANGED << tabs, cur, nextGen, resizing, rmu, waiters, clk, 
-                             done, fncalls, lres, cres, pcnt, stack, hint, 
-                             known, rz_t, rz_new, rz_b, rz_nb, rz_cnt, lk, l_t, 
-                             l_b, l_c, l_cand, l_s, l_k, kind, dk, dv, dfn, 
-                             d_t, d_b, d_pos, d_old, d_r, d_ins, d_fnres, 
-                             d_fndone, c_t, ci >>
+                             done, fncalls, lres, cres, rvis, pcnt, stack, 
+                             hint, known, rz_t, rz_new, rz_b, rz_nb, rz_cnt, 
+                             lk, l_t, l_b, l_c, l_cand, l_s, l_k, kind, dk, dv, 
+                             dfn, d_t, d_b, d_pos, d_old, d_r, d_ins, d_fnres, 
+                             d_fndone, r_t, r_b, r_ents, r_i, c_t, ci >>
 
 L3k(self) == /\ pc[self] = "L3k"
              /\ l_k' = [l_k EXCEPT ![self] = tabs[l_t[self]].cells[l_b[self]][l_c[self]][l_s[self]].key]
              /\ pc' = [pc EXCEPT ![self] = "L3c"]
              /\ UNCHANGED << tabs, cur, nextGen, resizing, rmu, waiters, clk, 
-                             done, fncalls, lres, cres, pcnt, stack, hint, 
-                             known, rz_t, rz_new, rz_b, rz_nb, rz_cnt, lk, l_t, 
-                             l_b, l_c, l_cand, l_s, l_v, kind, dk, dv, dfn, 
-                             d_t, d_b, d_pos, d_old, d_r, d_ins, d_fnres, 
-                             d_fndone, c_t, ci >>
+                             done, fncalls, lres, cres, rvis, pcnt, stack, 
+                             hint, known, rz_t, rz_new, rz_b, rz_nb, rz_cnt, 
+                             lk, l_t, l_b, l_c, l_cand, l_s, l_v, kind, dk, dv, 
+                             dfn, d_t, d_b, d_pos, d_old, d_r, d_ins, d_fnres, 
+                             d_fndone, r_t, r_b, r_ents, r_i, c_t, ci >>
 
 L3c(self) == /\ pc[self] = "L3c"
              /\ IF l_k[self] # NilK /\ l_v[self] # NilV /\ l_k[self] = lk[self]
@@ -871,10 +932,10 @@ L3c(self) == /\ pc[self] = "L3c"
                         /\ UNCHANGED << lres, stack, lk, l_t, l_b, l_c, l_cand, 
                                         l_s, l_v, l_k >>
              /\ UNCHANGED << tabs, cur, nextGen, resizing, rmu, waiters, clk, 
-                             done, fncalls, cres, pcnt, hint, known, rz_t, 
-                             rz_new, rz_b, rz_nb, rz_cnt, kind, dk, dv, dfn, 
-                             d_t, d_b, d_pos, d_old, d_r, d_ins, d_fnres, 
-                             d_fndone, c_t, ci >>
+                             done, fncalls, cres, rvis, pcnt, hint, known, 
+                             rz_t, rz_new, rz_b, rz_nb, rz_cnt, kind, dk, dv, 
+                             dfn, d_t, d_b, d_pos, d_old, d_r, d_ins, d_fnres, 
+                             d_fndone, r_t, r_b, r_ents, r_i, c_t, ci >>
 
 L3r(self) == /\ pc[self] = "L3r"
              /\ IF tabs[l_t[self]].cells[l_b[self]][l_c[self]][l_s[self]].val = l_v[self]
@@ -893,10 +954,10 @@ L3r(self) == /\ pc[self] = "L3r"
                         /\ UNCHANGED << lres, stack, lk, l_t, l_b, l_c, l_cand, 
                                         l_s, l_v, l_k >>
              /\ UNCHANGED << tabs, cur, nextGen, resizing, rmu, waiters, clk, 
-                             done, fncalls, cres, pcnt, hint, known, rz_t, 
-                             rz_new, rz_b, rz_nb, rz_cnt, kind, dk, dv, dfn, 
-                             d_t, d_b, d_pos, d_old, d_r, d_ins, d_fnres, 
-                             d_fndone, c_t, ci >>
+                             done, fncalls, cres, rvis, pcnt, hint, known, 
+                             rz_t, rz_new, rz_b, rz_nb, rz_cnt, kind, dk, dv, 
+                             dfn, d_t, d_b, d_pos, d_old, d_r, d_ins, d_fnres, 
+                             d_fndone, r_t, r_b, r_ents, r_i, c_t, ci >>
 
 L4(self) == /\ pc[self] = "L4"
             /\ IF l_c[self] < Len(tabs[l_t[self]].cells[l_b[self]])
@@ -916,10 +977,10 @@ L4(self) == /\ pc[self] = "L4"
                        /\ lk' = [lk EXCEPT ![self] = Head(stack[self]).lk]
                        /\ stack' = [stack EXCEPT ![self] = Tail(stack[self])]
             /\ UNCHANGED << tabs, cur, nextGen, resizing, rmu, waiters, clk, 
-                            done, fncalls, cres, pcnt, hint, known, rz_t, 
+                            done, fncalls, cres, rvis, pcnt, hint, known, rz_t, 
                             rz_new, rz_b, rz_nb, rz_cnt, kind, dk, dv, dfn, 
                             d_t, d_b, d_pos, d_old, d_r, d_ins, d_fnres, 
-                            d_fndone, c_t, ci >>
+                            d_fndone, r_t, r_b, r_ents, r_i, c_t, ci >>
 
 load(self) == L1(self) \/ L2(self) \/ L3(self) \/ L3n(self) \/ L3e(self)
                  \/ L3v(self) \/ L3k(self) \/ L3c(self) \/ L3r(self)
@@ -951,10 +1012,10 @@ DC0(self) == /\ pc[self] = "DC0"
                         /\ UNCHANGED << stack, lk, l_t, l_b, l_c, l_cand, l_s, 
                                         l_v, l_k >>
              /\ UNCHANGED << tabs, cur, nextGen, resizing, rmu, waiters, clk, 
-                             done, fncalls, lres, cres, pcnt, hint, known, 
-                             rz_t, rz_new, rz_b, rz_nb, rz_cnt, kind, dk, dv, 
-                             dfn, d_t, d_b, d_pos, d_old, d_r, d_ins, d_fnres, 
-                             d_fndone, c_t, ci >>
+                             done, fncalls, lres, cres, rvis, pcnt, hint, 
+                             known, rz_t, rz_new, rz_b, rz_nb, rz_cnt, kind, 
+                             dk, dv, dfn, d_t, d_b, d_pos, d_old, d_r, d_ins, 
+                             d_fnres, d_fndone, r_t, r_b, r_ents, r_i, c_t, ci >>
 
 DC0r(self) == /\ pc[self] = "DC0r"
               /\ IF lres[self].ok
@@ -978,31 +1039,32 @@ DC0r(self) == /\ pc[self] = "DC0r"
                                          d_b, d_pos, d_old, d_r, d_ins, 
                                          d_fnres, d_fndone >>
               /\ UNCHANGED << tabs, cur, nextGen, resizing, rmu, waiters, clk, 
-                              done, fncalls, lres, pcnt, hint, known, rz_t, 
-                              rz_new, rz_b, rz_nb, rz_cnt, lk, l_t, l_b, l_c, 
-                              l_cand, l_s, l_v, l_k, c_t, ci >>
+                              done, fncalls, lres, rvis, pcnt, hint, known, 
+                              rz_t, rz_new, rz_b, rz_nb, rz_cnt, lk, l_t, l_b, 
+                              l_c, l_cand, l_s, l_v, l_k, r_t, r_b, r_ents, 
+                              r_i, c_t, ci >>
 
 DC1(self) == /\ pc[self] = "DC1"
              /\ d_t' = [d_t EXCEPT ![self] = cur]
              /\ d_b' = [d_b EXCEPT ![self] = BucketOf(tabs[cur].nb, dk[self])]
              /\ pc' = [pc EXCEPT ![self] = "DC2"]
              /\ UNCHANGED << tabs, cur, nextGen, resizing, rmu, waiters, clk, 
-                             done, fncalls, lres, cres, pcnt, stack, hint, 
-                             known, rz_t, rz_new, rz_b, rz_nb, rz_cnt, lk, l_t, 
-                             l_b, l_c, l_cand, l_s, l_v, l_k, kind, dk, dv, 
-                             dfn, d_pos, d_old, d_r, d_ins, d_fnres, d_fndone, 
-                             c_t, ci >>
+                             done, fncalls, lres, cres, rvis, pcnt, stack, 
+                             hint, known, rz_t, rz_new, rz_b, rz_nb, rz_cnt, 
+                             lk, l_t, l_b, l_c, l_cand, l_s, l_v, l_k, kind, 
+                             dk, dv, dfn, d_pos, d_old, d_r, d_ins, d_fnres, 
+                             d_fndone, r_t, r_b, r_ents, r_i, c_t, ci >>
 
 DC2(self) == /\ pc[self] = "DC2"
              /\ tabs[d_t[self]].lock[d_b[self]] = None
              /\ tabs' = [tabs EXCEPT ![d_t[self]].lock[d_b[self]] = self]
              /\ pc' = [pc EXCEPT ![self] = "DC3"]
              /\ UNCHANGED << cur, nextGen, resizing, rmu, waiters, clk, done, 
-                             fncalls, lres, cres, pcnt, stack, hint, known, 
-                             rz_t, rz_new, rz_b, rz_nb, rz_cnt, lk, l_t, l_b, 
-                             l_c, l_cand, l_s, l_v, l_k, kind, dk, dv, dfn, 
-                             d_t, d_b, d_pos, d_old, d_r, d_ins, d_fnres, 
-                             d_fndone, c_t, ci >>
+                             fncalls, lres, cres, rvis, pcnt, stack, hint, 
+                             known, rz_t, rz_new, rz_b, rz_nb, rz_cnt, lk, l_t, 
+                             l_b, l_c, l_cand, l_s, l_v, l_k, kind, dk, dv, 
+                             dfn, d_t, d_b, d_pos, d_old, d_r, d_ins, d_fnres, 
+                             d_fndone, r_t, r_b, r_ents, r_i, c_t, ci >>
 
 DC3(self) == /\ pc[self] = "DC3"
              /\ IF CheckOrder \in {"flag-table", "flag-only"}
@@ -1015,11 +1077,11 @@ DC3(self) == /\ pc[self] = "DC3"
                                          ELSE /\ pc' = [pc EXCEPT ![self] = "DC4"]
                               ELSE /\ pc' = [pc EXCEPT ![self] = "DC4"]
              /\ UNCHANGED << tabs, cur, nextGen, resizing, rmu, waiters, clk, 
-                             done, fncalls, lres, cres, pcnt, stack, hint, 
-                             known, rz_t, rz_new, rz_b, rz_nb, rz_cnt, lk, l_t, 
-                             l_b, l_c, l_cand, l_s, l_v, l_k, kind, dk, dv, 
-                             dfn, d_t, d_b, d_pos, d_old, d_r, d_ins, d_fnres, 
-                             d_fndone, c_t, ci >>
+                             done, fncalls, lres, cres, rvis, pcnt, stack, 
+                             hint, known, rz_t, rz_new, rz_b, rz_nb, rz_cnt, 
+                             lk, l_t, l_b, l_c, l_cand, l_s, l_v, l_k, kind, 
+                             dk, dv, dfn, d_t, d_b, d_pos, d_old, d_r, d_ins, 
+                             d_fnres, d_fndone, r_t, r_b, r_ents, r_i, c_t, ci >>
 
 DC3u(self) == /\ pc[self] = "DC3u"
               /\ tabs' = [tabs EXCEPT ![d_t[self]].lock[d_b[self]] = None]
@@ -1028,20 +1090,21 @@ DC3u(self) == /\ pc[self] = "DC3u"
                                                    \o stack[self]]
               /\ pc' = [pc EXCEPT ![self] = "W1"]
               /\ UNCHANGED << cur, nextGen, resizing, rmu, waiters, clk, done, 
-                              fncalls, lres, cres, pcnt, hint, known, rz_t, 
-                              rz_new, rz_b, rz_nb, rz_cnt, lk, l_t, l_b, l_c, 
-                              l_cand, l_s, l_v, l_k, kind, dk, dv, dfn, d_t, 
-                              d_b, d_pos, d_old, d_r, d_ins, d_fnres, d_fndone, 
-                              c_t, ci >>
+                              fncalls, lres, cres, rvis, pcnt, hint, known, 
+                              rz_t, rz_new, rz_b, rz_nb, rz_cnt, lk, l_t, l_b, 
+                              l_c, l_cand, l_s, l_v, l_k, kind, dk, dv, dfn, 
+                              d_t, d_b, d_pos, d_old, d_r, d_ins, d_fnres, 
+                              d_fndone, r_t, r_b, r_ents, r_i, c_t, ci >>
 
 DC3g(self) == /\ pc[self] = "DC3g"
               /\ pc' = [pc EXCEPT ![self] = "DC1"]
               /\ UNCHANGED << tabs, cur, nextGen, resizing, rmu, waiters, clk, 
-                              done, fncalls, lres, cres, pcnt, stack, hint, 
-                              known, rz_t, rz_new, rz_b, rz_nb, rz_cnt, lk, 
-                              l_t, l_b, l_c, l_cand, l_s, l_v, l_k, kind, dk, 
-                              dv, dfn, d_t, d_b, d_pos, d_old, d_r, d_ins, 
-                              d_fnres, d_fndone, c_t, ci >>
+                              done, fncalls, lres, cres, rvis, pcnt, stack, 
+                              hint, known, rz_t, rz_new, rz_b, rz_nb, rz_cnt, 
+                              lk, l_t, l_b, l_c, l_cand, l_s, l_v, l_k, kind, 
+                              dk, dv, dfn, d_t, d_b, d_pos, d_old, d_r, d_ins, 
+                              d_fnres, d_fndone, r_t, r_b, r_ents, r_i, c_t, 
+                              ci >>
 
 DC3v(self) == /\ pc[self] = "DC3v"
               /\ IF UnlockOnNewerTable
@@ -1050,11 +1113,12 @@ DC3v(self) == /\ pc[self] = "DC3v"
                          /\ tabs' = tabs
               /\ pc' = [pc EXCEPT ![self] = "DC1"]
               /\ UNCHANGED << cur, nextGen, resizing, rmu, waiters, clk, done, 
-                              fncalls, lres, cres, pcnt, stack, hint, known, 
-                              rz_t, rz_new, rz_b, rz_nb, rz_cnt, lk, l_t, l_b, 
-                              l_c, l_cand, l_s, l_v, l_k, kind, dk, dv, dfn, 
-                              d_t, d_b, d_pos, d_old, d_r, d_ins, d_fnres, 
-                              d_fndone, c_t, ci >>
+                              fncalls, lres, cres, rvis, pcnt, stack, hint, 
+                              known, rz_t, rz_new, rz_b, rz_nb, rz_cnt, lk, 
+                              l_t, l_b, l_c, l_cand, l_s, l_v, l_k, kind, dk, 
+                              dv, dfn, d_t, d_b, d_pos, d_old, d_r, d_ins, 
+                              d_fnres, d_fndone, r_t, r_b, r_ents, r_i, c_t, 
+                              ci >>
 
 DC4(self) == /\ pc[self] = "DC4"
              /\ IF CheckOrder = "flag-table"
@@ -1067,11 +1131,11 @@ DC4(self) == /\ pc[self] = "DC4"
                                          ELSE /\ pc' = [pc EXCEPT ![self] = "DC5"]
                               ELSE /\ pc' = [pc EXCEPT ![self] = "DC5"]
              /\ UNCHANGED << tabs, cur, nextGen, resizing, rmu, waiters, clk, 
-                             done, fncalls, lres, cres, pcnt, stack, hint, 
-                             known, rz_t, rz_new, rz_b, rz_nb, rz_cnt, lk, l_t, 
-                             l_b, l_c, l_cand, l_s, l_v, l_k, kind, dk, dv, 
-                             dfn, d_t, d_b, d_pos, d_old, d_r, d_ins, d_fnres, 
-                             d_fndone, c_t, ci >>
+                             done, fncalls, lres, cres, rvis, pcnt, stack, 
+                             hint, known, rz_t, rz_new, rz_b, rz_nb, rz_cnt, 
+                             lk, l_t, l_b, l_c, l_cand, l_s, l_v, l_k, kind, 
+                             dk, dv, dfn, d_t, d_b, d_pos, d_old, d_r, d_ins, 
+                             d_fnres, d_fndone, r_t, r_b, r_ents, r_i, c_t, ci >>
 
 DC4u(self) == /\ pc[self] = "DC4u"
               /\ IF UnlockOnNewerTable
@@ -1080,11 +1144,12 @@ DC4u(self) == /\ pc[self] = "DC4u"
                          /\ tabs' = tabs
               /\ pc' = [pc EXCEPT ![self] = "DC1"]
               /\ UNCHANGED << cur, nextGen, resizing, rmu, waiters, clk, done, 
-                              fncalls, lres, cres, pcnt, stack, hint, known, 
-                              rz_t, rz_new, rz_b, rz_nb, rz_cnt, lk, l_t, l_b, 
-                              l_c, l_cand, l_s, l_v, l_k, kind, dk, dv, dfn, 
-                              d_t, d_b, d_pos, d_old, d_r, d_ins, d_fnres, 
-                              d_fndone, c_t, ci >>
+                              fncalls, lres, cres, rvis, pcnt, stack, hint, 
+                              known, rz_t, rz_new, rz_b, rz_nb, rz_cnt, lk, 
+                              l_t, l_b, l_c, l_cand, l_s, l_v, l_k, kind, dk, 
+                              dv, dfn, d_t, d_b, d_pos, d_old, d_r, d_ins, 
+                              d_fnres, d_fndone, r_t, r_b, r_ents, r_i, c_t, 
+                              ci >>
 
 DC4v(self) == /\ pc[self] = "DC4v"
               /\ tabs' = [tabs EXCEPT ![d_t[self]].lock[d_b[self]] = None]
@@ -1093,20 +1158,21 @@ DC4v(self) == /\ pc[self] = "DC4v"
                                                    \o stack[self]]
               /\ pc' = [pc EXCEPT ![self] = "W1"]
               /\ UNCHANGED << cur, nextGen, resizing, rmu, waiters, clk, done, 
-                              fncalls, lres, cres, pcnt, hint, known, rz_t, 
-                              rz_new, rz_b, rz_nb, rz_cnt, lk, l_t, l_b, l_c, 
-                              l_cand, l_s, l_v, l_k, kind, dk, dv, dfn, d_t, 
-                              d_b, d_pos, d_old, d_r, d_ins, d_fnres, d_fndone, 
-                              c_t, ci >>
+                              fncalls, lres, cres, rvis, pcnt, hint, known, 
+                              rz_t, rz_new, rz_b, rz_nb, rz_cnt, lk, l_t, l_b, 
+                              l_c, l_cand, l_s, l_v, l_k, kind, dk, dv, dfn, 
+                              d_t, d_b, d_pos, d_old, d_r, d_ins, d_fnres, 
+                              d_fndone, r_t, r_b, r_ents, r_i, c_t, ci >>
 
 DC4g(self) == /\ pc[self] = "DC4g"
               /\ pc' = [pc EXCEPT ![self] = "DC1"]
               /\ UNCHANGED << tabs, cur, nextGen, resizing, rmu, waiters, clk, 
-                              done, fncalls, lres, cres, pcnt, stack, hint, 
-                              known, rz_t, rz_new, rz_b, rz_nb, rz_cnt, lk, 
-                              l_t, l_b, l_c, l_cand, l_s, l_v, l_k, kind, dk, 
-                              dv, dfn, d_t, d_b, d_pos, d_old, d_r, d_ins, 
-                              d_fnres, d_fndone, c_t, ci >>
+                              done, fncalls, lres, cres, rvis, pcnt, stack, 
+                              hint, known, rz_t, rz_new, rz_b, rz_nb, rz_cnt, 
+                              lk, l_t, l_b, l_c, l_cand, l_s, l_v, l_k, kind, 
+                              dk, dv, dfn, d_t, d_b, d_pos, d_old, d_r, d_ins, 
+                              d_fnres, d_fndone, r_t, r_b, r_ents, r_i, c_t, 
+                              ci >>
 
 DC5(self) == /\ pc[self] = "DC5"
              /\ IF FindKey(tabs[d_t[self]].cells[d_b[self]], dk[self]) # {}
@@ -1126,10 +1192,11 @@ DC5(self) == /\ pc[self] = "DC5"
                                    /\ UNCHANGED << d_pos, d_ins >>
                         /\ UNCHANGED << cres, d_old >>
              /\ UNCHANGED << tabs, cur, nextGen, resizing, rmu, waiters, clk, 
-                             done, fncalls, lres, pcnt, stack, hint, known, 
-                             rz_t, rz_new, rz_b, rz_nb, rz_cnt, lk, l_t, l_b, 
-                             l_c, l_cand, l_s, l_v, l_k, kind, dk, dv, dfn, 
-                             d_t, d_b, d_r, d_fnres, d_fndone, c_t, ci >>
+                             done, fncalls, lres, rvis, pcnt, stack, hint, 
+                             known, rz_t, rz_new, rz_b, rz_nb, rz_cnt, lk, l_t, 
+                             l_b, l_c, l_cand, l_s, l_v, l_k, kind, dk, dv, 
+                             dfn, d_t, d_b, d_r, d_fnres, d_fndone, r_t, r_b, 
+                             r_ents, r_i, c_t, ci >>
 
 DF1(self) == /\ pc[self] = "DF1"
              /\ d_r' = [d_r EXCEPT ![self] = IF kind[self] = "Compute" THEN FnResult(dfn[self], dv[self], d_old[self], TRUE) ELSE IF kind[self] \in {"LoadAndDelete", "Delete"} THEN <<d_old[self], TRUE>> ELSE <<dv[self], FALSE>>]
@@ -1138,21 +1205,21 @@ DF1(self) == /\ pc[self] = "DF1"
                    THEN /\ pc' = [pc EXCEPT ![self] = "DD0"]
                    ELSE /\ pc' = [pc EXCEPT ![self] = "DS1"]
              /\ UNCHANGED << tabs, cur, nextGen, resizing, rmu, waiters, clk, 
-                             done, lres, cres, pcnt, stack, hint, known, rz_t, 
-                             rz_new, rz_b, rz_nb, rz_cnt, lk, l_t, l_b, l_c, 
-                             l_cand, l_s, l_v, l_k, kind, dk, dv, dfn, d_t, 
-                             d_b, d_pos, d_old, d_ins, d_fnres, d_fndone, c_t, 
-                             ci >>
+                             done, lres, cres, rvis, pcnt, stack, hint, known, 
+                             rz_t, rz_new, rz_b, rz_nb, rz_cnt, lk, l_t, l_b, 
+                             l_c, l_cand, l_s, l_v, l_k, kind, dk, dv, dfn, 
+                             d_t, d_b, d_pos, d_old, d_ins, d_fnres, d_fndone, 
+                             r_t, r_b, r_ents, r_i, c_t, ci >>
 
 DD0(self) == /\ pc[self] = "DD0"
              /\ tabs' = [tabs EXCEPT ![d_t[self]].cells[d_b[self]][d_pos[self][1]][d_pos[self][2]].pres = FALSE]
              /\ pc' = [pc EXCEPT ![self] = "DD1"]
              /\ UNCHANGED << cur, nextGen, resizing, rmu, waiters, clk, done, 
-                             fncalls, lres, cres, pcnt, stack, hint, known, 
-                             rz_t, rz_new, rz_b, rz_nb, rz_cnt, lk, l_t, l_b, 
-                             l_c, l_cand, l_s, l_v, l_k, kind, dk, dv, dfn, 
-                             d_t, d_b, d_pos, d_old, d_r, d_ins, d_fnres, 
-                             d_fndone, c_t, ci >>
+                             fncalls, lres, cres, rvis, pcnt, stack, hint, 
+                             known, rz_t, rz_new, rz_b, rz_nb, rz_cnt, lk, l_t, 
+                             l_b, l_c, l_cand, l_s, l_v, l_k, kind, dk, dv, 
+                             dfn, d_t, d_b, d_pos, d_old, d_r, d_ins, d_fnres, 
+                             d_fndone, r_t, r_b, r_ents, r_i, c_t, ci >>
 
 DD1(self) == /\ pc[self] = "DD1"
              /\ IF Variant = "Map"
@@ -1160,11 +1227,11 @@ DD1(self) == /\ pc[self] = "DD1"
                    ELSE /\ tabs' = [tabs EXCEPT ![d_t[self]].cells[d_b[self]][d_pos[self][1]][d_pos[self][2]] = EmptySlot]
              /\ pc' = [pc EXCEPT ![self] = "DD2"]
              /\ UNCHANGED << cur, nextGen, resizing, rmu, waiters, clk, done, 
-                             fncalls, lres, cres, pcnt, stack, hint, known, 
-                             rz_t, rz_new, rz_b, rz_nb, rz_cnt, lk, l_t, l_b, 
-                             l_c, l_cand, l_s, l_v, l_k, kind, dk, dv, dfn, 
-                             d_t, d_b, d_pos, d_old, d_r, d_ins, d_fnres, 
-                             d_fndone, c_t, ci >>
+                             fncalls, lres, cres, rvis, pcnt, stack, hint, 
+                             known, rz_t, rz_new, rz_b, rz_nb, rz_cnt, lk, l_t, 
+                             l_b, l_c, l_cand, l_s, l_v, l_k, kind, dk, dv, 
+                             dfn, d_t, d_b, d_pos, d_old, d_r, d_ins, d_fnres, 
+                             d_fndone, r_t, r_b, r_ents, r_i, c_t, ci >>
 
 DD2(self) == /\ pc[self] = "DD2"
              /\ IF Variant = "Map"
@@ -1173,22 +1240,22 @@ DD2(self) == /\ pc[self] = "DD2"
                         /\ tabs' = tabs
              /\ pc' = [pc EXCEPT ![self] = "DDu"]
              /\ UNCHANGED << cur, nextGen, resizing, rmu, waiters, clk, done, 
-                             fncalls, lres, cres, pcnt, stack, hint, known, 
-                             rz_t, rz_new, rz_b, rz_nb, rz_cnt, lk, l_t, l_b, 
-                             l_c, l_cand, l_s, l_v, l_k, kind, dk, dv, dfn, 
-                             d_t, d_b, d_pos, d_old, d_r, d_ins, d_fnres, 
-                             d_fndone, c_t, ci >>
+                             fncalls, lres, cres, rvis, pcnt, stack, hint, 
+                             known, rz_t, rz_new, rz_b, rz_nb, rz_cnt, lk, l_t, 
+                             l_b, l_c, l_cand, l_s, l_v, l_k, kind, dk, dv, 
+                             dfn, d_t, d_b, d_pos, d_old, d_r, d_ins, d_fnres, 
+                             d_fndone, r_t, r_b, r_ents, r_i, c_t, ci >>
 
 DDu(self) == /\ pc[self] = "DDu"
              /\ tabs' = [tabs EXCEPT ![d_t[self]].lock[d_b[self]] = None]
              /\ cres' = [cres EXCEPT ![self] = [rv |-> d_old[self], ok |-> (kind[self] # "Compute")]]
              /\ pc' = [pc EXCEPT ![self] = "DDa"]
              /\ UNCHANGED << cur, nextGen, resizing, rmu, waiters, clk, done, 
-                             fncalls, lres, pcnt, stack, hint, known, rz_t, 
-                             rz_new, rz_b, rz_nb, rz_cnt, lk, l_t, l_b, l_c, 
-                             l_cand, l_s, l_v, l_k, kind, dk, dv, dfn, d_t, 
-                             d_b, d_pos, d_old, d_r, d_ins, d_fnres, d_fndone, 
-                             c_t, ci >>
+                             fncalls, lres, rvis, pcnt, stack, hint, known, 
+                             rz_t, rz_new, rz_b, rz_nb, rz_cnt, lk, l_t, l_b, 
+                             l_c, l_cand, l_s, l_v, l_k, kind, dk, dv, dfn, 
+                             d_t, d_b, d_pos, d_old, d_r, d_ins, d_fnres, 
+                             d_fndone, r_t, r_b, r_ents, r_i, c_t, ci >>
 
 DDa(self) == /\ pc[self] = "DDa"
              /\ IF SizeTarget = "modified"
@@ -1196,11 +1263,11 @@ DDa(self) == /\ pc[self] = "DDa"
                    ELSE /\ tabs' = [tabs EXCEPT ![cur].size = tabs[cur].size - 1]
              /\ pc' = [pc EXCEPT ![self] = "DDs"]
              /\ UNCHANGED << cur, nextGen, resizing, rmu, waiters, clk, done, 
-                             fncalls, lres, cres, pcnt, stack, hint, known, 
-                             rz_t, rz_new, rz_b, rz_nb, rz_cnt, lk, l_t, l_b, 
-                             l_c, l_cand, l_s, l_v, l_k, kind, dk, dv, dfn, 
-                             d_t, d_b, d_pos, d_old, d_r, d_ins, d_fnres, 
-                             d_fndone, c_t, ci >>
+                             fncalls, lres, cres, rvis, pcnt, stack, hint, 
+                             known, rz_t, rz_new, rz_b, rz_nb, rz_cnt, lk, l_t, 
+                             l_b, l_c, l_cand, l_s, l_v, l_k, kind, dk, dv, 
+                             dfn, d_t, d_b, d_pos, d_old, d_r, d_ins, d_fnres, 
+                             d_fndone, r_t, r_b, r_ents, r_i, c_t, ci >>
 
 DDs(self) == /\ pc[self] = "DDs"
              /\ IF (Variant = "Map" /\ ChainIsEmpty(tabs[d_t[self]].cells[d_b[self]])) \/ (Variant = "MapOf" /\ CellMetaEmpty(tabs[d_t[self]].cells[d_b[self]][d_pos[self][1]]))
@@ -1226,10 +1293,10 @@ DDs(self) == /\ pc[self] = "DDs"
                         /\ UNCHANGED << stack, hint, known, rz_t, rz_new, rz_b, 
                                         rz_nb, rz_cnt >>
              /\ UNCHANGED << tabs, cur, nextGen, resizing, rmu, waiters, clk, 
-                             done, fncalls, lres, cres, pcnt, lk, l_t, l_b, 
-                             l_c, l_cand, l_s, l_v, l_k, kind, dk, dv, dfn, 
-                             d_t, d_b, d_pos, d_old, d_r, d_ins, d_fnres, 
-                             d_fndone, c_t, ci >>
+                             done, fncalls, lres, cres, rvis, pcnt, lk, l_t, 
+                             l_b, l_c, l_cand, l_s, l_v, l_k, kind, dk, dv, 
+                             dfn, d_t, d_b, d_pos, d_old, d_r, d_ins, d_fnres, 
+                             d_fndone, r_t, r_b, r_ents, r_i, c_t, ci >>
 
 DDr(self) == /\ pc[self] = "DDr"
              /\ pc' = [pc EXCEPT ![self] = Head(stack[self]).pc]
@@ -1247,20 +1314,21 @@ DDr(self) == /\ pc[self] = "DDr"
              /\ dfn' = [dfn EXCEPT ![self] = Head(stack[self]).dfn]
              /\ stack' = [stack EXCEPT ![self] = Tail(stack[self])]
              /\ UNCHANGED << tabs, cur, nextGen, resizing, rmu, waiters, clk, 
-                             done, fncalls, lres, cres, pcnt, hint, known, 
-                             rz_t, rz_new, rz_b, rz_nb, rz_cnt, lk, l_t, l_b, 
-                             l_c, l_cand, l_s, l_v, l_k, c_t, ci >>
+                             done, fncalls, lres, cres, rvis, pcnt, hint, 
+                             known, rz_t, rz_new, rz_b, rz_nb, rz_cnt, lk, l_t, 
+                             l_b, l_c, l_cand, l_s, l_v, l_k, r_t, r_b, r_ents, 
+                             r_i, c_t, ci >>
 
 DS1(self) == /\ pc[self] = "DS1"
              /\ tabs' = [tabs EXCEPT ![d_t[self]].cells[d_b[self]][d_pos[self][1]][d_pos[self][2]].val = d_r[self][1]]
              /\ cres' = [cres EXCEPT ![self] = IF kind[self] = "Compute" THEN [rv |-> d_r[self][1], ok |-> TRUE] ELSE [rv |-> d_old[self], ok |-> TRUE]]
              /\ pc' = [pc EXCEPT ![self] = "DCu"]
              /\ UNCHANGED << cur, nextGen, resizing, rmu, waiters, clk, done, 
-                             fncalls, lres, pcnt, stack, hint, known, rz_t, 
-                             rz_new, rz_b, rz_nb, rz_cnt, lk, l_t, l_b, l_c, 
-                             l_cand, l_s, l_v, l_k, kind, dk, dv, dfn, d_t, 
-                             d_b, d_pos, d_old, d_r, d_ins, d_fnres, d_fndone, 
-                             c_t, ci >>
+                             fncalls, lres, rvis, pcnt, stack, hint, known, 
+                             rz_t, rz_new, rz_b, rz_nb, rz_cnt, lk, l_t, l_b, 
+                             l_c, l_cand, l_s, l_v, l_k, kind, dk, dv, dfn, 
+                             d_t, d_b, d_pos, d_old, d_r, d_ins, d_fnres, 
+                             d_fndone, r_t, r_b, r_ents, r_i, c_t, ci >>
 
 DF2(self) == /\ pc[self] = "DF2"
              /\ d_r' = [d_r EXCEPT ![self] = IF kind[self] = "Compute" THEN FnResult(dfn[self], dv[self], NilV, FALSE) ELSE IF kind[self] \in {"LoadAndDelete", "Delete"} THEN <<NilV, TRUE>> ELSE <<dv[self], FALSE>>]
@@ -1271,22 +1339,22 @@ DF2(self) == /\ pc[self] = "DF2"
                    ELSE /\ pc' = [pc EXCEPT ![self] = "DI0"]
                         /\ cres' = cres
              /\ UNCHANGED << tabs, cur, nextGen, resizing, rmu, waiters, clk, 
-                             done, lres, pcnt, stack, hint, known, rz_t, 
+                             done, lres, rvis, pcnt, stack, hint, known, rz_t, 
                              rz_new, rz_b, rz_nb, rz_cnt, lk, l_t, l_b, l_c, 
                              l_cand, l_s, l_v, l_k, kind, dk, dv, dfn, d_t, 
-                             d_b, d_pos, d_old, d_ins, d_fnres, d_fndone, c_t, 
-                             ci >>
+                             d_b, d_pos, d_old, d_ins, d_fnres, d_fndone, r_t, 
+                             r_b, r_ents, r_i, c_t, ci >>
 
 DI0(self) == /\ pc[self] = "DI0"
              /\ tabs' = [tabs EXCEPT ![d_t[self]].cells[d_b[self]][d_pos[self][1]][d_pos[self][2]].pres = TRUE,
                                      ![d_t[self]].cells[d_b[self]][d_pos[self][1]][d_pos[self][2]].hsh = HH[dk[self]]]
              /\ pc' = [pc EXCEPT ![self] = "DI1"]
              /\ UNCHANGED << cur, nextGen, resizing, rmu, waiters, clk, done, 
-                             fncalls, lres, cres, pcnt, stack, hint, known, 
-                             rz_t, rz_new, rz_b, rz_nb, rz_cnt, lk, l_t, l_b, 
-                             l_c, l_cand, l_s, l_v, l_k, kind, dk, dv, dfn, 
-                             d_t, d_b, d_pos, d_old, d_r, d_ins, d_fnres, 
-                             d_fndone, c_t, ci >>
+                             fncalls, lres, cres, rvis, pcnt, stack, hint, 
+                             known, rz_t, rz_new, rz_b, rz_nb, rz_cnt, lk, l_t, 
+                             l_b, l_c, l_cand, l_s, l_v, l_k, kind, dk, dv, 
+                             dfn, d_t, d_b, d_pos, d_old, d_r, d_ins, d_fnres, 
+                             d_fndone, r_t, r_b, r_ents, r_i, c_t, ci >>
 
 DI1(self) == /\ pc[self] = "DI1"
              /\ IF Variant = "MapOf"
@@ -1297,11 +1365,11 @@ DI1(self) == /\ pc[self] = "DI1"
                               ELSE /\ tabs' = [tabs EXCEPT ![d_t[self]].cells[d_b[self]][d_pos[self][1]][d_pos[self][2]].key = dk[self]]
              /\ pc' = [pc EXCEPT ![self] = "DI2"]
              /\ UNCHANGED << cur, nextGen, resizing, rmu, waiters, clk, done, 
-                             fncalls, lres, cres, pcnt, stack, hint, known, 
-                             rz_t, rz_new, rz_b, rz_nb, rz_cnt, lk, l_t, l_b, 
-                             l_c, l_cand, l_s, l_v, l_k, kind, dk, dv, dfn, 
-                             d_t, d_b, d_pos, d_old, d_r, d_ins, d_fnres, 
-                             d_fndone, c_t, ci >>
+                             fncalls, lres, cres, rvis, pcnt, stack, hint, 
+                             known, rz_t, rz_new, rz_b, rz_nb, rz_cnt, lk, l_t, 
+                             l_b, l_c, l_cand, l_s, l_v, l_k, kind, dk, dv, 
+                             dfn, d_t, d_b, d_pos, d_old, d_r, d_ins, d_fnres, 
+                             d_fndone, r_t, r_b, r_ents, r_i, c_t, ci >>
 
 DI2(self) == /\ pc[self] = "DI2"
              /\ IF Variant = "Map"
@@ -1312,22 +1380,22 @@ DI2(self) == /\ pc[self] = "DI2"
                         /\ tabs' = tabs
              /\ pc' = [pc EXCEPT ![self] = "DIu"]
              /\ UNCHANGED << cur, nextGen, resizing, rmu, waiters, clk, done, 
-                             fncalls, lres, cres, pcnt, stack, hint, known, 
-                             rz_t, rz_new, rz_b, rz_nb, rz_cnt, lk, l_t, l_b, 
-                             l_c, l_cand, l_s, l_v, l_k, kind, dk, dv, dfn, 
-                             d_t, d_b, d_pos, d_old, d_r, d_ins, d_fnres, 
-                             d_fndone, c_t, ci >>
+                             fncalls, lres, cres, rvis, pcnt, stack, hint, 
+                             known, rz_t, rz_new, rz_b, rz_nb, rz_cnt, lk, l_t, 
+                             l_b, l_c, l_cand, l_s, l_v, l_k, kind, dk, dv, 
+                             dfn, d_t, d_b, d_pos, d_old, d_r, d_ins, d_fnres, 
+                             d_fndone, r_t, r_b, r_ents, r_i, c_t, ci >>
 
 DIu(self) == /\ pc[self] = "DIu"
              /\ tabs' = [tabs EXCEPT ![d_t[self]].lock[d_b[self]] = None]
              /\ cres' = [cres EXCEPT ![self] = [rv |-> d_r[self][1], ok |-> (kind[self] = "Compute")]]
              /\ pc' = [pc EXCEPT ![self] = "DIa"]
              /\ UNCHANGED << cur, nextGen, resizing, rmu, waiters, clk, done, 
-                             fncalls, lres, pcnt, stack, hint, known, rz_t, 
-                             rz_new, rz_b, rz_nb, rz_cnt, lk, l_t, l_b, l_c, 
-                             l_cand, l_s, l_v, l_k, kind, dk, dv, dfn, d_t, 
-                             d_b, d_pos, d_old, d_r, d_ins, d_fnres, d_fndone, 
-                             c_t, ci >>
+                             fncalls, lres, rvis, pcnt, stack, hint, known, 
+                             rz_t, rz_new, rz_b, rz_nb, rz_cnt, lk, l_t, l_b, 
+                             l_c, l_cand, l_s, l_v, l_k, kind, dk, dv, dfn, 
+                             d_t, d_b, d_pos, d_old, d_r, d_ins, d_fnres, 
+                             d_fndone, r_t, r_b, r_ents, r_i, c_t, ci >>
 
 DIa(self) == /\ pc[self] = "DIa"
              /\ IF SizeTarget = "modified"
@@ -1348,9 +1416,10 @@ DIa(self) == /\ pc[self] = "DIa"
              /\ dfn' = [dfn EXCEPT ![self] = Head(stack[self]).dfn]
              /\ stack' = [stack EXCEPT ![self] = Tail(stack[self])]
              /\ UNCHANGED << cur, nextGen, resizing, rmu, waiters, clk, done, 
-                             fncalls, lres, cres, pcnt, hint, known, rz_t, 
-                             rz_new, rz_b, rz_nb, rz_cnt, lk, l_t, l_b, l_c, 
-                             l_cand, l_s, l_v, l_k, c_t, ci >>
+                             fncalls, lres, cres, rvis, pcnt, hint, known, 
+                             rz_t, rz_new, rz_b, rz_nb, rz_cnt, lk, l_t, l_b, 
+                             l_c, l_cand, l_s, l_v, l_k, r_t, r_b, r_ents, r_i, 
+                             c_t, ci >>
 
 DG0(self) == /\ pc[self] = "DG0"
              /\ IF FnBeforeRetry /\ ~d_fndone[self]
@@ -1360,21 +1429,22 @@ DG0(self) == /\ pc[self] = "DG0"
                         /\ UNCHANGED << fncalls, d_fnres >>
              /\ pc' = [pc EXCEPT ![self] = "DG1"]
              /\ UNCHANGED << tabs, cur, nextGen, resizing, rmu, waiters, clk, 
-                             done, lres, cres, pcnt, stack, hint, known, rz_t, 
-                             rz_new, rz_b, rz_nb, rz_cnt, lk, l_t, l_b, l_c, 
-                             l_cand, l_s, l_v, l_k, kind, dk, dv, dfn, d_t, 
-                             d_b, d_pos, d_old, d_r, d_ins, d_fndone, c_t, ci >>
+                             done, lres, cres, rvis, pcnt, stack, hint, known, 
+                             rz_t, rz_new, rz_b, rz_nb, rz_cnt, lk, l_t, l_b, 
+                             l_c, l_cand, l_s, l_v, l_k, kind, dk, dv, dfn, 
+                             d_t, d_b, d_pos, d_old, d_r, d_ins, d_fndone, r_t, 
+                             r_b, r_ents, r_i, c_t, ci >>
 
 DG1(self) == /\ pc[self] = "DG1"
              /\ IF tabs[d_t[self]].size > GrowAt[tabs[d_t[self]].nb]
                    THEN /\ pc' = [pc EXCEPT ![self] = "DGu"]
                    ELSE /\ pc' = [pc EXCEPT ![self] = "DF3"]
              /\ UNCHANGED << tabs, cur, nextGen, resizing, rmu, waiters, clk, 
-                             done, fncalls, lres, cres, pcnt, stack, hint, 
-                             known, rz_t, rz_new, rz_b, rz_nb, rz_cnt, lk, l_t, 
-                             l_b, l_c, l_cand, l_s, l_v, l_k, kind, dk, dv, 
-                             dfn, d_t, d_b, d_pos, d_old, d_r, d_ins, d_fnres, 
-                             d_fndone, c_t, ci >>
+                             done, fncalls, lres, cres, rvis, pcnt, stack, 
+                             hint, known, rz_t, rz_new, rz_b, rz_nb, rz_cnt, 
+                             lk, l_t, l_b, l_c, l_cand, l_s, l_v, l_k, kind, 
+                             dk, dv, dfn, d_t, d_b, d_pos, d_old, d_r, d_ins, 
+                             d_fnres, d_fndone, r_t, r_b, r_ents, r_i, c_t, ci >>
 
 DGu(self) == /\ pc[self] = "DGu"
              /\ tabs' = [tabs EXCEPT ![d_t[self]].lock[d_b[self]] = None]
@@ -1397,19 +1467,19 @@ DGu(self) == /\ pc[self] = "DGu"
              /\ rz_cnt' = [rz_cnt EXCEPT ![self] = 0]
              /\ pc' = [pc EXCEPT ![self] = "RZ0"]
              /\ UNCHANGED << cur, nextGen, resizing, rmu, waiters, clk, done, 
-                             fncalls, lres, cres, pcnt, lk, l_t, l_b, l_c, 
-                             l_cand, l_s, l_v, l_k, kind, dk, dv, dfn, d_t, 
-                             d_b, d_pos, d_old, d_r, d_ins, d_fnres, d_fndone, 
-                             c_t, ci >>
+                             fncalls, lres, cres, rvis, pcnt, lk, l_t, l_b, 
+                             l_c, l_cand, l_s, l_v, l_k, kind, dk, dv, dfn, 
+                             d_t, d_b, d_pos, d_old, d_r, d_ins, d_fnres, 
+                             d_fndone, r_t, r_b, r_ents, r_i, c_t, ci >>
 
 DGg(self) == /\ pc[self] = "DGg"
              /\ pc' = [pc EXCEPT ![self] = "DC1"]
              /\ UNCHANGED << tabs, cur, nextGen, resizing, rmu, waiters, clk, 
-                             done, fncalls, lres, cres, pcnt, stack, hint, 
-                             known, rz_t, rz_new, rz_b, rz_nb, rz_cnt, lk, l_t, 
-                             l_b, l_c, l_cand, l_s, l_v, l_k, kind, dk, dv, 
-                             dfn, d_t, d_b, d_pos, d_old, d_r, d_ins, d_fnres, 
-                             d_fndone, c_t, ci >>
+                             done, fncalls, lres, cres, rvis, pcnt, stack, 
+                             hint, known, rz_t, rz_new, rz_b, rz_nb, rz_cnt, 
+                             lk, l_t, l_b, l_c, l_cand, l_s, l_v, l_k, kind, 
+                             dk, dv, dfn, d_t, d_b, d_pos, d_old, d_r, d_ins, 
+                             d_fnres, d_fndone, r_t, r_b, r_ents, r_i, c_t, ci >>
 
 DF3(self) == /\ pc[self] = "DF3"
              /\ d_r' = [d_r EXCEPT ![self] = IF kind[self] = "Compute" THEN FnResult(dfn[self], dv[self], NilV, FALSE) ELSE IF kind[self] \in {"LoadAndDelete", "Delete"} THEN <<NilV, TRUE>> ELSE <<dv[self], FALSE>>]
@@ -1420,32 +1490,32 @@ DF3(self) == /\ pc[self] = "DF3"
                    ELSE /\ pc' = [pc EXCEPT ![self] = "DA1"]
                         /\ cres' = cres
              /\ UNCHANGED << tabs, cur, nextGen, resizing, rmu, waiters, clk, 
-                             done, lres, pcnt, stack, hint, known, rz_t, 
+                             done, lres, rvis, pcnt, stack, hint, known, rz_t, 
                              rz_new, rz_b, rz_nb, rz_cnt, lk, l_t, l_b, l_c, 
                              l_cand, l_s, l_v, l_k, kind, dk, dv, dfn, d_t, 
-                             d_b, d_pos, d_old, d_ins, d_fnres, d_fndone, c_t, 
-                             ci >>
+                             d_b, d_pos, d_old, d_ins, d_fnres, d_fndone, r_t, 
+                             r_b, r_ents, r_i, c_t, ci >>
 
 DA1(self) == /\ pc[self] = "DA1"
              /\ tabs' = [tabs EXCEPT ![d_t[self]].cells[d_b[self]] = PutChain(tabs[d_t[self]].cells[d_b[self]], dk[self], d_r[self][1], 1)]
              /\ d_ins' = [d_ins EXCEPT ![self] = TRUE]
              /\ pc' = [pc EXCEPT ![self] = "DIu"]
              /\ UNCHANGED << cur, nextGen, resizing, rmu, waiters, clk, done, 
-                             fncalls, lres, cres, pcnt, stack, hint, known, 
-                             rz_t, rz_new, rz_b, rz_nb, rz_cnt, lk, l_t, l_b, 
-                             l_c, l_cand, l_s, l_v, l_k, kind, dk, dv, dfn, 
-                             d_t, d_b, d_pos, d_old, d_r, d_fnres, d_fndone, 
-                             c_t, ci >>
+                             fncalls, lres, cres, rvis, pcnt, stack, hint, 
+                             known, rz_t, rz_new, rz_b, rz_nb, rz_cnt, lk, l_t, 
+                             l_b, l_c, l_cand, l_s, l_v, l_k, kind, dk, dv, 
+                             dfn, d_t, d_b, d_pos, d_old, d_r, d_fnres, 
+                             d_fndone, r_t, r_b, r_ents, r_i, c_t, ci >>
 
 DCu(self) == /\ pc[self] = "DCu"
              /\ tabs' = [tabs EXCEPT ![d_t[self]].lock[d_b[self]] = None]
              /\ pc' = [pc EXCEPT ![self] = "DCr"]
              /\ UNCHANGED << cur, nextGen, resizing, rmu, waiters, clk, done, 
-                             fncalls, lres, cres, pcnt, stack, hint, known, 
-                             rz_t, rz_new, rz_b, rz_nb, rz_cnt, lk, l_t, l_b, 
-                             l_c, l_cand, l_s, l_v, l_k, kind, dk, dv, dfn, 
-                             d_t, d_b, d_pos, d_old, d_r, d_ins, d_fnres, 
-                             d_fndone, c_t, ci >>
+                             fncalls, lres, cres, rvis, pcnt, stack, hint, 
+                             known, rz_t, rz_new, rz_b, rz_nb, rz_cnt, lk, l_t, 
+                             l_b, l_c, l_cand, l_s, l_v, l_k, kind, dk, dv, 
+                             dfn, d_t, d_b, d_pos, d_old, d_r, d_ins, d_fnres, 
+                             d_fndone, r_t, r_b, r_ents, r_i, c_t, ci >>
 
 DCr(self) == /\ pc[self] = "DCr"
              /\ pc' = [pc EXCEPT ![self] = Head(stack[self]).pc]
@@ -1463,9 +1533,10 @@ DCr(self) == /\ pc[self] = "DCr"
              /\ dfn' = [dfn EXCEPT ![self] = Head(stack[self]).dfn]
              /\ stack' = [stack EXCEPT ![self] = Tail(stack[self])]
              /\ UNCHANGED << tabs, cur, nextGen, resizing, rmu, waiters, clk, 
-                             done, fncalls, lres, cres, pcnt, hint, known, 
-                             rz_t, rz_new, rz_b, rz_nb, rz_cnt, lk, l_t, l_b, 
-                             l_c, l_cand, l_s, l_v, l_k, c_t, ci >>
+                             done, fncalls, lres, cres, rvis, pcnt, hint, 
+                             known, rz_t, rz_new, rz_b, rz_nb, rz_cnt, lk, l_t, 
+                             l_b, l_c, l_cand, l_s, l_v, l_k, r_t, r_b, r_ents, 
+                             r_i, c_t, ci >>
 
 doCompute(self) == DC0(self) \/ DC0r(self) \/ DC1(self) \/ DC2(self)
                       \/ DC3(self) \/ DC3u(self) \/ DC3g(self)
@@ -1477,6 +1548,80 @@ doCompute(self) == DC0(self) \/ DC0r(self) \/ DC1(self) \/ DC2(self)
                       \/ DIu(self) \/ DIa(self) \/ DG0(self) \/ DG1(self)
                       \/ DGu(self) \/ DGg(self) \/ DF3(self) \/ DA1(self)
                       \/ DCu(self) \/ DCr(self)
+
+R1(self) == /\ pc[self] = "R1"
+            /\ r_t' = [r_t EXCEPT ![self] = cur]
+            /\ r_b' = [r_b EXCEPT ![self] = 0]
+            /\ pc' = [pc EXCEPT ![self] = "R2"]
+            /\ UNCHANGED << tabs, cur, nextGen, resizing, rmu, waiters, clk, 
+                            done, fncalls, lres, cres, rvis, pcnt, stack, hint, 
+                            known, rz_t, rz_new, rz_b, rz_nb, rz_cnt, lk, l_t, 
+                            l_b, l_c, l_cand, l_s, l_v, l_k, kind, dk, dv, dfn, 
+                            d_t, d_b, d_pos, d_old, d_r, d_ins, d_fnres, 
+                            d_fndone, r_ents, r_i, c_t, ci >>
+
+R2(self) == /\ pc[self] = "R2"
+            /\ IF r_b[self] < tabs[r_t[self]].nb
+                  THEN /\ pc' = [pc EXCEPT ![self] = "R2l"]
+                       /\ UNCHANGED << stack, r_t, r_b, r_ents, r_i >>
+                  ELSE /\ pc' = [pc EXCEPT ![self] = Head(stack[self]).pc]
+                       /\ r_t' = [r_t EXCEPT ![self] = Head(stack[self]).r_t]
+                       /\ r_b' = [r_b EXCEPT ![self] = Head(stack[self]).r_b]
+                       /\ r_ents' = [r_ents EXCEPT ![self] = Head(stack[self]).r_ents]
+                       /\ r_i' = [r_i EXCEPT ![self] = Head(stack[self]).r_i]
+                       /\ stack' = [stack EXCEPT ![self] = Tail(stack[self])]
+            /\ UNCHANGED << tabs, cur, nextGen, resizing, rmu, waiters, clk, 
+                            done, fncalls, lres, cres, rvis, pcnt, hint, known, 
+                            rz_t, rz_new, rz_b, rz_nb, rz_cnt, lk, l_t, l_b, 
+                            l_c, l_cand, l_s, l_v, l_k, kind, dk, dv, dfn, d_t, 
+                            d_b, d_pos, d_old, d_r, d_ins, d_fnres, d_fndone, 
+                            c_t, ci >>
+
+R2l(self) == /\ pc[self] = "R2l"
+             /\ tabs[r_t[self]].lock[r_b[self]] = None
+             /\ tabs' = [tabs EXCEPT ![r_t[self]].lock[r_b[self]] = self]
+             /\ pc' = [pc EXCEPT ![self] = "R2u"]
+             /\ UNCHANGED << cur, nextGen, resizing, rmu, waiters, clk, done, 
+                             fncalls, lres, cres, rvis, pcnt, stack, hint, 
+                             known, rz_t, rz_new, rz_b, rz_nb, rz_cnt, lk, l_t, 
+                             l_b, l_c, l_cand, l_s, l_v, l_k, kind, dk, dv, 
+                             dfn, d_t, d_b, d_pos, d_old, d_r, d_ins, d_fnres, 
+                             d_fndone, r_t, r_b, r_ents, r_i, c_t, ci >>
+
+R2u(self) == /\ pc[self] = "R2u"
+             /\ r_ents' = [r_ents EXCEPT ![self] = SetToSeq(LiveEntries(tabs[r_t[self]].cells[r_b[self]]))]
+             /\ r_i' = [r_i EXCEPT ![self] = 1]
+             /\ tabs' = [tabs EXCEPT ![r_t[self]].lock[r_b[self]] = None]
+             /\ pc' = [pc EXCEPT ![self] = "R3"]
+             /\ UNCHANGED << cur, nextGen, resizing, rmu, waiters, clk, done, 
+                             fncalls, lres, cres, rvis, pcnt, stack, hint, 
+                             known, rz_t, rz_new, rz_b, rz_nb, rz_cnt, lk, l_t, 
+                             l_b, l_c, l_cand, l_s, l_v, l_k, kind, dk, dv, 
+                             dfn, d_t, d_b, d_pos, d_old, d_r, d_ins, d_fnres, 
+                             d_fndone, r_t, r_b, c_t, ci >>
+
+R3(self) == /\ pc[self] = "R3"
+            /\ IF r_i[self] <= Len(r_ents[self])
+                  THEN /\ rvis' = [rvis EXCEPT ![self] = Append(rvis[self], r_ents[self][r_i[self]])]
+                       /\ r_i' = [r_i EXCEPT ![self] = r_i[self] + 1]
+                       /\ pc' = [pc EXCEPT ![self] = "R3"]
+                       /\ UNCHANGED << r_t, r_b >>
+                  ELSE /\ r_b' = [r_b EXCEPT ![self] = r_b[self] + 1]
+                       /\ IF ~RangeSnapshotsTable
+                             THEN /\ r_t' = [r_t EXCEPT ![self] = cur]
+                             ELSE /\ TRUE
+                                  /\ r_t' = r_t
+                       /\ pc' = [pc EXCEPT ![self] = "R2"]
+                       /\ UNCHANGED << rvis, r_i >>
+            /\ UNCHANGED << tabs, cur, nextGen, resizing, rmu, waiters, clk, 
+                            done, fncalls, lres, cres, pcnt, stack, hint, 
+                            known, rz_t, rz_new, rz_b, rz_nb, rz_cnt, lk, l_t, 
+                            l_b, l_c, l_cand, l_s, l_v, l_k, kind, dk, dv, dfn, 
+                            d_t, d_b, d_pos, d_old, d_r, d_ins, d_fnres, 
+                            d_fndone, r_ents, c_t, ci >>
+
+rangeAll(self) == R1(self) \/ R2(self) \/ R2l(self) \/ R2u(self)
+                     \/ R3(self)
 
 CL1(self) == /\ pc[self] = "CL1"
              /\ c_t' = [c_t EXCEPT ![self] = cur]
@@ -1499,21 +1644,21 @@ CL1(self) == /\ pc[self] = "CL1"
              /\ rz_cnt' = [rz_cnt EXCEPT ![self] = 0]
              /\ pc' = [pc EXCEPT ![self] = "RZ0"]
              /\ UNCHANGED << tabs, cur, nextGen, resizing, rmu, waiters, clk, 
-                             done, fncalls, lres, cres, pcnt, lk, l_t, l_b, 
-                             l_c, l_cand, l_s, l_v, l_k, kind, dk, dv, dfn, 
-                             d_t, d_b, d_pos, d_old, d_r, d_ins, d_fnres, 
-                             d_fndone, ci >>
+                             done, fncalls, lres, cres, rvis, pcnt, lk, l_t, 
+                             l_b, l_c, l_cand, l_s, l_v, l_k, kind, dk, dv, 
+                             dfn, d_t, d_b, d_pos, d_old, d_r, d_ins, d_fnres, 
+                             d_fndone, r_t, r_b, r_ents, r_i, ci >>
 
 CL2(self) == /\ pc[self] = "CL2"
              /\ pc' = [pc EXCEPT ![self] = Head(stack[self]).pc]
              /\ c_t' = [c_t EXCEPT ![self] = Head(stack[self]).c_t]
              /\ stack' = [stack EXCEPT ![self] = Tail(stack[self])]
              /\ UNCHANGED << tabs, cur, nextGen, resizing, rmu, waiters, clk, 
-                             done, fncalls, lres, cres, pcnt, hint, known, 
-                             rz_t, rz_new, rz_b, rz_nb, rz_cnt, lk, l_t, l_b, 
-                             l_c, l_cand, l_s, l_v, l_k, kind, dk, dv, dfn, 
-                             d_t, d_b, d_pos, d_old, d_r, d_ins, d_fnres, 
-                             d_fndone, ci >>
+                             done, fncalls, lres, cres, rvis, pcnt, hint, 
+                             known, rz_t, rz_new, rz_b, rz_nb, rz_cnt, lk, l_t, 
+                             l_b, l_c, l_cand, l_s, l_v, l_k, kind, dk, dv, 
+                             dfn, d_t, d_b, d_pos, d_old, d_r, d_ins, d_fnres, 
+                             d_fndone, r_t, r_b, r_ents, r_i, ci >>
 
 clearMap(self) == CL1(self) \/ CL2(self)
 
@@ -1527,10 +1672,11 @@ Loop(self) == /\ pc[self] = "Loop"
                     ELSE /\ pc' = [pc EXCEPT ![self] = "Done"]
                          /\ UNCHANGED << clk, fncalls, pcnt, ci >>
               /\ UNCHANGED << tabs, cur, nextGen, resizing, rmu, waiters, done, 
-                              lres, cres, stack, hint, known, rz_t, rz_new, 
-                              rz_b, rz_nb, rz_cnt, lk, l_t, l_b, l_c, l_cand, 
-                              l_s, l_v, l_k, kind, dk, dv, dfn, d_t, d_b, 
-                              d_pos, d_old, d_r, d_ins, d_fnres, d_fndone, c_t >>
+                              lres, cres, rvis, stack, hint, known, rz_t, 
+                              rz_new, rz_b, rz_nb, rz_cnt, lk, l_t, l_b, l_c, 
+                              l_cand, l_s, l_v, l_k, kind, dk, dv, dfn, d_t, 
+                              d_b, d_pos, d_old, d_r, d_ins, d_fnres, d_fndone, 
+                              r_t, r_b, r_ents, r_i, c_t >>
 
 Disp(self) == /\ pc[self] = "Disp"
               /\ IF Op(self).op = "Load"
@@ -1554,9 +1700,10 @@ Disp(self) == /\ pc[self] = "Disp"
                          /\ l_v' = [l_v EXCEPT ![self] = NilV]
                          /\ l_k' = [l_k EXCEPT ![self] = NilK]
                          /\ pc' = [pc EXCEPT ![self] = "L1"]
-                         /\ UNCHANGED << cres, kind, dk, dv, dfn, d_t, d_b, 
-                                         d_pos, d_old, d_r, d_ins, d_fnres, 
-                                         d_fndone, c_t >>
+                         /\ UNCHANGED << cres, rvis, kind, dk, dv, dfn, d_t, 
+                                         d_b, d_pos, d_old, d_r, d_ins, 
+                                         d_fnres, d_fndone, r_t, r_b, r_ents, 
+                                         r_i, c_t >>
                     ELSE /\ IF Op(self).op = "Clear"
                                THEN /\ stack' = [stack EXCEPT ![self] = << [ procedure |->  "clearMap",
                                                                              pc        |->  "Fin",
@@ -1564,48 +1711,78 @@ Disp(self) == /\ pc[self] = "Disp"
                                                                          \o stack[self]]
                                     /\ c_t' = [c_t EXCEPT ![self] = 0]
                                     /\ pc' = [pc EXCEPT ![self] = "CL1"]
-                                    /\ UNCHANGED << cres, kind, dk, dv, dfn, 
-                                                    d_t, d_b, d_pos, d_old, 
-                                                    d_r, d_ins, d_fnres, 
-                                                    d_fndone >>
-                               ELSE /\ IF Op(self).op = "Size"
-                                          THEN /\ cres' = [cres EXCEPT ![self] = [rv |-> NilV, ok |-> FALSE]]
-                                               /\ pc' = [pc EXCEPT ![self] = "Fin"]
-                                               /\ UNCHANGED << stack, kind, dk, 
+                                    /\ UNCHANGED << cres, rvis, kind, dk, dv, 
+                                                    dfn, d_t, d_b, d_pos, 
+                                                    d_old, d_r, d_ins, d_fnres, 
+                                                    d_fndone, r_t, r_b, r_ents, 
+                                                    r_i >>
+                               ELSE /\ IF Op(self).op = "Range"
+                                          THEN /\ rvis' = [rvis EXCEPT ![self] = <<>>]
+                                               /\ stack' = [stack EXCEPT ![self] = << [ procedure |->  "rangeAll",
+                                                                                        pc        |->  "Fin",
+                                                                                        r_t       |->  r_t[self],
+                                                                                        r_b       |->  r_b[self],
+                                                                                        r_ents    |->  r_ents[self],
+                                                                                        r_i       |->  r_i[self] ] >>
+                                                                                    \o stack[self]]
+                                               /\ r_t' = [r_t EXCEPT ![self] = 0]
+                                               /\ r_b' = [r_b EXCEPT ![self] = 0]
+                                               /\ r_ents' = [r_ents EXCEPT ![self] = <<>>]
+                                               /\ r_i' = [r_i EXCEPT ![self] = 1]
+                                               /\ pc' = [pc EXCEPT ![self] = "R1"]
+                                               /\ UNCHANGED << cres, kind, dk, 
                                                                dv, dfn, d_t, 
                                                                d_b, d_pos, 
                                                                d_old, d_r, 
                                                                d_ins, d_fnres, 
                                                                d_fndone >>
-                                          ELSE /\ /\ dfn' = [dfn EXCEPT ![self] = Op(self).fn]
-                                                  /\ dk' = [dk EXCEPT ![self] = Op(self).k]
-                                                  /\ dv' = [dv EXCEPT ![self] = Op(self).v]
-                                                  /\ kind' = [kind EXCEPT ![self] = Op(self).op]
-                                                  /\ stack' = [stack EXCEPT ![self] = << [ procedure |->  "doCompute",
-                                                                                           pc        |->  "Fin",
-                                                                                           d_t       |->  d_t[self],
-                                                                                           d_b       |->  d_b[self],
-                                                                                           d_pos     |->  d_pos[self],
-                                                                                           d_old     |->  d_old[self],
-                                                                                           d_r       |->  d_r[self],
-                                                                                           d_ins     |->  d_ins[self],
-                                                                                           d_fnres   |->  d_fnres[self],
-                                                                                           d_fndone  |->  d_fndone[self],
-                                                                                           kind      |->  kind[self],
-                                                                                           dk        |->  dk[self],
-                                                                                           dv        |->  dv[self],
-                                                                                           dfn       |->  dfn[self] ] >>
-                                                                                       \o stack[self]]
-                                               /\ d_t' = [d_t EXCEPT ![self] = 0]
-                                               /\ d_b' = [d_b EXCEPT ![self] = 0]
-                                               /\ d_pos' = [d_pos EXCEPT ![self] = <<0, 0>>]
-                                               /\ d_old' = [d_old EXCEPT ![self] = NilV]
-                                               /\ d_r' = [d_r EXCEPT ![self] = <<NilV, FALSE>>]
-                                               /\ d_ins' = [d_ins EXCEPT ![self] = FALSE]
-                                               /\ d_fnres' = [d_fnres EXCEPT ![self] = <<NilV, FALSE>>]
-                                               /\ d_fndone' = [d_fndone EXCEPT ![self] = FALSE]
-                                               /\ pc' = [pc EXCEPT ![self] = "DC0"]
-                                               /\ cres' = cres
+                                          ELSE /\ IF Op(self).op = "Size"
+                                                     THEN /\ cres' = [cres EXCEPT ![self] = [rv |-> NilV, ok |-> FALSE]]
+                                                          /\ pc' = [pc EXCEPT ![self] = "Fin"]
+                                                          /\ UNCHANGED << stack, 
+                                                                          kind, 
+                                                                          dk, 
+                                                                          dv, 
+                                                                          dfn, 
+                                                                          d_t, 
+                                                                          d_b, 
+                                                                          d_pos, 
+                                                                          d_old, 
+                                                                          d_r, 
+                                                                          d_ins, 
+                                                                          d_fnres, 
+                                                                          d_fndone >>
+                                                     ELSE /\ /\ dfn' = [dfn EXCEPT ![self] = Op(self).fn]
+                                                             /\ dk' = [dk EXCEPT ![self] = Op(self).k]
+                                                             /\ dv' = [dv EXCEPT ![self] = Op(self).v]
+                                                             /\ kind' = [kind EXCEPT ![self] = Op(self).op]
+                                                             /\ stack' = [stack EXCEPT ![self] = << [ procedure |->  "doCompute",
+                                                                                                      pc        |->  "Fin",
+                                                                                                      d_t       |->  d_t[self],
+                                                                                                      d_b       |->  d_b[self],
+                                                                                                      d_pos     |->  d_pos[self],
+                                                                                                      d_old     |->  d_old[self],
+                                                                                                      d_r       |->  d_r[self],
+                                                                                                      d_ins     |->  d_ins[self],
+                                                                                                      d_fnres   |->  d_fnres[self],
+                                                                                                      d_fndone  |->  d_fndone[self],
+                                                                                                      kind      |->  kind[self],
+                                                                                                      dk        |->  dk[self],
+                                                                                                      dv        |->  dv[self],
+                                                                                                      dfn       |->  dfn[self] ] >>
+                                                                                                  \o stack[self]]
+                                                          /\ d_t' = [d_t EXCEPT ![self] = 0]
+                                                          /\ d_b' = [d_b EXCEPT ![self] = 0]
+                                                          /\ d_pos' = [d_pos EXCEPT ![self] = <<0, 0>>]
+                                                          /\ d_old' = [d_old EXCEPT ![self] = NilV]
+                                                          /\ d_r' = [d_r EXCEPT ![self] = <<NilV, FALSE>>]
+                                                          /\ d_ins' = [d_ins EXCEPT ![self] = FALSE]
+                                                          /\ d_fnres' = [d_fnres EXCEPT ![self] = <<NilV, FALSE>>]
+                                                          /\ d_fndone' = [d_fndone EXCEPT ![self] = FALSE]
+                                                          /\ pc' = [pc EXCEPT ![self] = "DC0"]
+                                                          /\ cres' = cres
+                                               /\ UNCHANGED << rvis, r_t, r_b, 
+                                                               r_ents, r_i >>
                                     /\ c_t' = c_t
                          /\ UNCHANGED << lk, l_t, l_b, l_c, l_cand, l_s, l_v, 
                                          l_k >>
@@ -1615,17 +1792,20 @@ Disp(self) == /\ pc[self] = "Disp"
 
 Fin(self) == /\ pc[self] = "Fin"
              /\ clk' = clk + 1
-             /\ done' = (done \cup {[t |-> self, call |-> Op(self), ci |-> ci[self], ri |-> clk',
-                                     res |-> [rv |-> (IF Op(self).op = "Load" THEN lres[self].rv ELSE cres[self].rv),
-                                              ok |-> (IF Op(self).op = "Load" THEN lres[self].ok ELSE cres[self].ok),
-                                              n |-> (IF Op(self).op \in {"Compute", "LoadOrCompute"} THEN fncalls[self] ELSE 0)]]})
+             /\ IF Op(self).op = "Range"
+                   THEN /\ done' = (done \cup {[t |-> self, call |-> [Op(self) EXCEPT !.op = "rbegin"], ci |-> ci[self], ri |-> ci[self], vis |-> <<>>, res |-> [rv |-> NilV, ok |-> FALSE, n |-> 0]],
+                                               [t |-> self, call |-> [Op(self) EXCEPT !.op = "rend"], ci |-> clk', ri |-> clk', vis |-> rvis[self], res |-> [rv |-> NilV, ok |-> FALSE, n |-> 0]]})
+                   ELSE /\ done' = (done \cup {[t |-> self, call |-> Op(self), ci |-> ci[self], ri |-> clk', vis |-> <<>>,
+                                                res |-> [rv |-> (IF Op(self).op = "Load" THEN lres[self].rv ELSE cres[self].rv),
+                                                         ok |-> (IF Op(self).op = "Load" THEN lres[self].ok ELSE cres[self].ok),
+                                                         n |-> (IF Op(self).op \in {"Compute", "LoadOrCompute"} THEN fncalls[self] ELSE 0)]]})
              /\ pc' = [pc EXCEPT ![self] = "Loop"]
              /\ UNCHANGED << tabs, cur, nextGen, resizing, rmu, waiters, 
-                             fncalls, lres, cres, pcnt, stack, hint, known, 
-                             rz_t, rz_new, rz_b, rz_nb, rz_cnt, lk, l_t, l_b, 
-                             l_c, l_cand, l_s, l_v, l_k, kind, dk, dv, dfn, 
-                             d_t, d_b, d_pos, d_old, d_r, d_ins, d_fnres, 
-                             d_fndone, c_t, ci >>
+                             fncalls, lres, cres, rvis, pcnt, stack, hint, 
+                             known, rz_t, rz_new, rz_b, rz_nb, rz_cnt, lk, l_t, 
+                             l_b, l_c, l_cand, l_s, l_v, l_k, kind, dk, dv, 
+                             dfn, d_t, d_b, d_pos, d_old, d_r, d_ins, d_fnres, 
+                             d_fndone, r_t, r_b, r_ents, r_i, c_t, ci >>
 
 thr(self) == Loop(self) \/ Disp(self) \/ Fin(self)
 
@@ -1635,7 +1815,7 @@ Terminating == /\ \A self \in ProcSet: pc[self] = "Done"
 
 Next == (\E self \in ProcSet:  \/ waitForResize(self) \/ resize(self)
                                \/ load(self) \/ doCompute(self)
-                               \/ clearMap(self))
+                               \/ rangeAll(self) \/ clearMap(self))
            \/ (\E self \in Threads: thr(self))
            \/ Terminating
 
@@ -1648,7 +1828,7 @@ Termination == <>(\A self \in ProcSet: pc[self] = "Done")
 AllDone == \A t \in Threads : pc[t] = "Done"
 
 \* ---- properties ----
-Linearizable == AllDone => LinSearch(InitM, done, PhysM(tabs[cur]), tabs[cur].size)
+Linearizable == AllDone => LinSearch(InitM, done, <<>>, PhysM(tabs[cur]), tabs[cur].size)
 NoDuplicateKeys == \A g \in 0..MaxGen : NoDup(tabs[g])
 LocksReleased == AllDone => /\ \A g \in 0..MaxGen : \A b \in 0..(tabs[g].nb - 1) : tabs[g].lock[b] = None
                             /\ rmu = None /\ ~resizing /\ waiters = {}
